@@ -1,2 +1,1571 @@
 (* Proofs for C19. *)
+From Coq Require Import ZifyN ZifyNat ZifyBool.
 From WI Require Import Lib.Base Lib.Info Model.Rpm.
+Open Scope N_scope.
+
+(* ================================================================ generic helpers *)
+
+Lemma lenN_app : forall A (a b : list A), lenN (a ++ b) = lenN a + lenN b.
+Proof. intros. unfold lenN. rewrite app_length. lia. Qed.
+
+Lemma lenN_cons : forall A (x : A) l, lenN (x :: l) = 1 + lenN l.
+Proof. intros. unfold lenN. cbn [length]. lia. Qed.
+
+Lemma to_nat_lenN : forall A (l : list A), N.to_nat (lenN l) = length l.
+Proof. intros. unfold lenN. apply Nat2N.id. Qed.
+
+Lemma lenN_nil : forall A, lenN (@nil A) = 0.
+Proof. reflexivity. Qed.
+
+Lemma firstn_app_exact : forall A (a b : list A) n, n = length a -> firstn n (a ++ b) = a.
+Proof. intros; subst. rewrite firstn_app, Nat.sub_diag, firstn_all. cbn. apply app_nil_r. Qed.
+
+Lemma skipn_app_exact : forall A (a b : list A) n, n = length a -> skipn n (a ++ b) = b.
+Proof. intros; subst. rewrite skipn_app, Nat.sub_diag, skipn_all. reflexivity. Qed.
+
+Lemma skipn_skipn : forall A (x y : nat) (l : list A), skipn x (skipn y l) = skipn (x + y) l.
+Proof.
+  intros A x y. induction y as [|y IH]; intros l.
+  - rewrite Nat.add_0_r. reflexivity.
+  - destruct l as [|a l]; [now rewrite !skipn_nil|].
+    rewrite Nat.add_succ_r. cbn [skipn]. apply IH.
+Qed.
+
+Lemma length_N_to_be : forall w n, length (N_to_be w n) = w.
+Proof. induction w; intros; cbn [N_to_be]; [reflexivity|]. rewrite app_length, IHw. cbn. lia. Qed.
+
+Lemma be_to_N_acc_app : forall a b acc, be_to_N_acc acc (a ++ b) = be_to_N_acc (be_to_N_acc acc a) b.
+Proof. induction a; intros; cbn [be_to_N_acc app]; [reflexivity|apply IHa]. Qed.
+
+Lemma be_to_N_to_be : forall w n, n < 256 ^ N.of_nat w -> be_to_N (N_to_be w n) = n.
+Proof.
+  unfold be_to_N.
+  induction w; intros n Hn.
+  - cbn in *. lia.
+  - cbn [N_to_be]. rewrite be_to_N_acc_app. cbn [be_to_N_acc].
+    rewrite IHw.
+    + pose proof (N.div_mod n 256). lia.
+    + rewrite Nat2N.inj_succ, N.pow_succ_r' in Hn.
+      apply N.div_lt_upper_bound; lia.
+Qed.
+
+Lemma be_to_N_to_be4 : forall n, n < 4294967296 -> be_to_N (N_to_be 4 n) = n.
+Proof. intros. apply be_to_N_to_be. exact H. Qed.
+
+Lemma be_to_N_to_be8 : forall n, n < 2 ^ 64 -> be_to_N (N_to_be 8 n) = n.
+Proof. intros. apply be_to_N_to_be. exact H. Qed.
+
+(* ================================================================ C19_keyid *)
+
+Lemma length_hex_of : forall u l, length (hex_of u l) = (2 * length l)%nat.
+Proof.
+  intros u l. unfold hex_of. induction l as [|b l IH]; [reflexivity|].
+  cbn [flat_map hex_byte app length]. rewrite IH. lia.
+Qed.
+
+Lemma hex_val_digit : forall d, d < 16 -> hex_val (hex_digit true d) = d.
+Proof.
+  intros d Hd. unfold hex_val, hex_digit.
+  destruct (d <? 10) eqn:E.
+  - assert (H1 : (48 <=? 48 + d) = true) by lia. assert (H2 : (48 + d <=? 57) = true) by lia.
+    rewrite H1, H2. cbn [andb]. lia.
+  - assert (H1 : ((48 <=? 55 + d) && (55 + d <=? 57)) = false) by lia. rewrite H1.
+    assert (H2 : ((65 <=? 55 + d) && (55 + d <=? 70)) = true) by lia. rewrite H2. lia.
+Qed.
+
+Lemma of_hex_acc : forall l acc,
+  Forall (fun b => b < 256) l ->
+  fold_left (fun a c => a * 16 + hex_val c) (hex_of true l) acc = be_to_N_acc acc l.
+Proof.
+  induction l as [|b l IH]; intros acc Hl; [reflexivity|].
+  inversion Hl as [|? ? Hb Hl']; subst.
+  cbn [hex_of flat_map hex_byte app fold_left be_to_N_acc].
+  fold (hex_of true l). rewrite IH by assumption. f_equal.
+  rewrite !hex_val_digit.
+  - pose proof (N.div_mod b 16). lia.
+  - apply N.mod_lt. lia.
+  - apply N.div_lt_upper_bound; lia.
+Qed.
+
+Lemma N_to_be_bytes : forall w n, Forall (fun b => b < 256) (N_to_be w n).
+Proof.
+  induction w; intros; cbn [N_to_be]; [constructor|].
+  apply Forall_app. split; [apply IHw|]. constructor; [|constructor]. apply N.mod_lt. lia.
+Qed.
+
+Lemma keyid_format : forall k, k < 2 ^ 64 ->
+  length (fmt_keyid k) = 16%nat /\ of_hex (fmt_keyid k) = k.
+Proof.
+  intros k Hk. unfold fmt_keyid. split.
+  - rewrite length_hex_of, length_N_to_be. reflexivity.
+  - unfold of_hex. rewrite of_hex_acc by apply N_to_be_bytes.
+    apply be_to_N_to_be8. exact Hk.
+Qed.
+
+(* all 16 digits are upper-case hexadecimal digits *)
+Definition is_upper_hex (c : N) : bool := ((48 <=? c) && (c <=? 57)) || ((65 <=? c) && (c <=? 70)).
+
+Lemma keyid_digits : forall k, forallb is_upper_hex (fmt_keyid k) = true.
+Proof.
+  intros k. unfold fmt_keyid. generalize (N_to_be_bytes 8 k). generalize (N_to_be 8 k).
+  intros l. induction l as [|b l IH]; intros Hl; [reflexivity|].
+  inversion Hl as [|? ? Hb Hl']; subst.
+  cbn [hex_of flat_map hex_byte app forallb]. fold (hex_of true l). rewrite IH by assumption.
+  assert (H16 : forall d, d < 16 -> is_upper_hex (hex_digit true d) = true).
+  { intros d Hd. unfold is_upper_hex, hex_digit. destruct (d <? 10) eqn:E; lia. }
+  rewrite !H16; [reflexivity| apply N.mod_lt; lia | apply N.div_lt_upper_bound; lia].
+Qed.
+
+(* F23: the pre-repair formatting loses the leading zero nibble *)
+Lemma keyid_raw_refuted :
+  exists k, k < 2 ^ 64 /\ length (fmt_keyid_raw k) <> 16%nat.
+Proof. exists 81985529216486895. split; [reflexivity|]. vm_compute. discriminate. Qed.
+
+(* ================================================================ no run-time panic *)
+
+Definition np {A} (r : result A) : Prop := is_panic r = false.
+
+Lemma np_ok : forall A (a : A), np (Ok a).
+Proof. reflexivity. Qed.
+Lemma np_err : forall A e, np (@Err A e).
+Proof. reflexivity. Qed.
+
+Lemma np_bind : forall A B (r : result A) (f : A -> result B),
+  np r -> (forall a, r = Ok a -> np (f a)) -> np (bind r f).
+Proof. intros A B [a|e|s] f Hr Hf; cbn [bind]; [now apply Hf|reflexivity|discriminate]. Qed.
+
+Lemma np_not_panic : forall A (r : result A), np r -> forall s, r <> Panic s.
+Proof. intros A r H s E. subst. discriminate. Qed.
+
+#[local] Hint Resolve np_ok np_err : np.
+
+Ltac np_step :=
+  match goal with
+  | |- np (Ok _) => reflexivity
+  | |- np (Err _) => reflexivity
+  | |- np (bind _ _) => apply np_bind; [|intros]
+  | |- np (let '(_, _) := ?p in _) => destruct p
+  | |- np (if ?b then _ else _) => destruct b eqn:?
+  | |- np (match ?x with _ => _ end) => destruct x eqn:?
+  end.
+
+Lemma np_read_exact : forall n r, np (read_exact n r).
+Proof. intros. unfold read_exact. repeat np_step. Qed.
+
+Lemma read_exact_ok : forall n r a b, read_exact n r = Ok (a, b) ->
+  a = firstn (N.to_nat n) r /\ b = skipn (N.to_nat n) r /\ n <= lenN r /\ r <> [].
+Proof.
+  intros n r a b H. unfold read_exact in H. destruct r as [|x r]; [discriminate|].
+  destruct (lenN (x :: r) <? n) eqn:E; [discriminate|]. inversion H; subst.
+  repeat split; [lia|discriminate].
+Qed.
+
+Lemma np_need : forall n l, np (need n l).
+Proof. intros. unfold need. repeat np_step. Qed.
+
+Lemma np_read_mpi : forall l, np (read_mpi l).
+Proof. intros. unfold read_mpi. repeat (np_step; try apply np_need). Qed.
+
+Lemma np_read_mpis : forall k l, np (read_mpis k l).
+Proof. induction k; intros; cbn [read_mpis]; [reflexivity|]. apply np_bind; [apply np_read_mpi|intros; apply IHk]. Qed.
+
+Lemma sig4_mpis_some : forall a, sig4_algo_ok a = true -> exists k, sig_mpis a = Some k.
+Proof.
+  intros a. unfold sig4_algo_ok, sig_mpis.
+  destruct (a =? 1), (a =? 3), (a =? 17), (a =? 19), (a =? 22); cbn; intros; eauto; discriminate.
+Qed.
+
+Lemma sig3_mpis_some : forall a, sig3_algo_ok a = true -> exists k, sig_mpis a = Some k.
+Proof.
+  intros a. unfold sig3_algo_ok, sig_mpis.
+  destruct (a =? 1), (a =? 3), (a =? 17), (a =? 19), (a =? 22); cbn; intros; eauto; discriminate.
+Qed.
+
+Lemma np_subpacket_length : forall sp, np (subpacket_length sp).
+Proof. intros. unfold subpacket_length. repeat np_step. Qed.
+
+(* unfolding equations of the mutual fixpoint *)
+Lemma parse_sig4_S : forall f v t a h l1 l2 rest,
+  parse_sig4 (S f) (v :: t :: a :: h :: l1 :: l2 :: rest) =
+  if negb (v =? 4) then Err "signature packet version"
+  else if negb (sig4_algo_ok a) then Err "public key algorithm"
+  else if negb (hash_known h) then Err "hash function"
+  else
+    let* (hashed, r1) := need (N.to_nat (l1 * 256 + l2)) rest in
+    let* st1 := parse_subpackets f (mksstate false None false) hashed true in
+    if negb (ss_created st1) then Err "no creation time in signature"
+    else
+      let* (ul, r2) := need 2 r1 in
+      let* (unhashed, r3) := need (N.to_nat (nth 0 ul 0 * 256 + nth 1 ul 0)) r2 in
+      let* st2 := parse_subpackets f st1 unhashed false in
+      let* (_, r4) := need 2 r3 in
+      match sig_mpis a with
+      | None => Panic "unreachable (signature.go:181)"
+      | Some k => let* _ := read_mpis k r4 in Ok (PSig4 t a h (ss_issuer st2))
+      end.
+Proof. reflexivity. Qed.
+
+Lemma np_parse_sig4_short : forall fuel c, (length c < 6)%nat -> np (parse_sig4 fuel c).
+Proof.
+  intros fuel c H.
+  destruct c as [|v [|t [|a [|h [|l1 [|l2 rest]]]]]]; cbn [length] in H; try lia;
+    destruct fuel; cbn [parse_sig4]; repeat np_step.
+Qed.
+
+Lemma np_sig4 : forall fuel,
+  (forall c, np (parse_sig4 fuel c)) /\ (forall st sp h, np (parse_subpackets fuel st sp h)).
+Proof.
+  induction fuel as [|f [IH4 IHs]].
+  - split.
+    + intros c. destruct c as [|v [|t [|a [|h [|l1 [|l2 rest]]]]]]; cbn [parse_sig4]; repeat np_step.
+    + intros st [|x sp] h; reflexivity.
+  - split.
+    + intros c. destruct (Nat.ltb (length c) 6) eqn:E.
+      * apply np_parse_sig4_short. apply Nat.ltb_lt. exact E.
+      * destruct c as [|v [|t [|a [|h [|l1 [|l2 rest]]]]]]; cbn [length] in E; try discriminate.
+        rewrite parse_sig4_S.
+        destruct (negb (v =? 4)); [reflexivity|].
+        destruct (negb (sig4_algo_ok a)) eqn:Ea; [reflexivity|].
+        destruct (negb (hash_known h)); [reflexivity|].
+        apply Bool.negb_false_iff in Ea. destruct (sig4_mpis_some a Ea) as [k Hk]. rewrite Hk.
+        repeat (first [apply np_need | apply IHs | apply np_read_mpis | np_step]).
+    + intros st [|x sp] h; [reflexivity|].
+      cbn [parse_subpackets].
+      apply np_bind; [apply np_subpacket_length|]. intros [len body] _.
+      repeat (first [apply IHs | apply IH4 | np_step]).
+Qed.
+
+Lemma np_parse_sig4 : forall fuel c, np (parse_sig4 fuel c).
+Proof. intros. apply np_sig4. Qed.
+
+Lemma np_parse_sig3 : forall c, np (parse_sig3 c).
+Proof.
+  intros c. unfold parse_sig3.
+  destruct c as [|v r0]; [reflexivity|].
+  destruct ((v <? 2) || (3 <? v)); [reflexivity|].
+  destruct r0 as [|five r1]; [reflexivity|].
+  destruct (negb (five =? 5)); [reflexivity|].
+  apply np_bind; [apply np_need|]. intros [x r2] _.
+  apply np_bind; [apply np_need|]. intros [kid r3] _.
+  apply np_bind; [apply np_need|]. intros [ah r4] _.
+  cbv zeta.
+  destruct (negb (sig3_algo_ok (nth 0 ah 0))) eqn:Ea; [reflexivity|].
+  destruct (negb (hash_known (nth 1 ah 0))); [reflexivity|].
+  apply Bool.negb_false_iff in Ea. destruct (sig3_mpis_some _ Ea) as [k Hk].
+  apply np_bind; [apply np_need|]. intros [y r5] _. rewrite Hk.
+  apply np_bind; [apply np_read_mpis|]. intros. reflexivity.
+Qed.
+
+Lemma np_read_pkt_header : forall sig, np (read_pkt_header sig).
+Proof. intros. unfold read_pkt_header. repeat (first [apply np_need | np_step]). Qed.
+
+Lemma np_packet_read : forall other sig, (forall b, np (other b)) -> np (packet_read other sig).
+Proof.
+  intros other sig Ho. unfold packet_read.
+  apply np_bind; [apply np_read_pkt_header|]. intros [tag content] _.
+  destruct (tag =? 2).
+  - destruct content as [|v c]; [reflexivity|].
+    destruct (v <? 4); [apply np_parse_sig3|apply np_parse_sig4].
+  - destruct (other_packet_tag tag); [|reflexivity].
+    apply np_bind; [apply Ho|]. intros. reflexivity.
+Qed.
+
+Lemma np_sig_attrs : forall c other sig, (forall b, np (other b)) -> np (sig_attrs c other sig).
+Proof.
+  intros c other sig Ho. unfold sig_attrs.
+  pose proof (np_packet_read other sig Ho) as H.
+  destruct (packet_read other sig) as [[t a h i|a h k|]| |]; try reflexivity. discriminate.
+Qed.
+
+(* the checked accessors (repair of F24) cannot fail *)
+Lemma string_by_tag_checked : forall tag es, exists s, string_by_tag true tag es = Ok s.
+Proof.
+  intros. unfold string_by_tag. destruct (index_by_tag tag es) as [e|]; [|eauto].
+  destruct (e_val e) as [|b|ty raw|[|s l]]; eauto.
+Qed.
+
+Lemma bytes_by_tag_checked : forall tag es, exists s, bytes_by_tag true tag es = Ok s.
+Proof.
+  intros. unfold bytes_by_tag. destruct (index_by_tag tag es) as [e|]; [|eauto].
+  destruct (e_val e); eauto.
+Qed.
+
+(* ---------------- rpmCheckIndex makes go-rpm's header parser safe (F36) ---------------- *)
+
+Lemma length_until_nul : forall l, (length (until_nul l) <= length l)%nat.
+Proof. induction l as [|b l IH]; cbn [until_nul length]; [lia|]. destruct (b =? 0); cbn [length]; lia. Qed.
+
+Lemma np_extract_strings : forall cnt store o,
+  o <= lenN store ->
+  strings_fit cnt (skipn (N.to_nat o) store) = true ->
+  np (extract_strings store cnt o).
+Proof.
+  induction cnt as [|c IH]; intros store o Ho Hf; [reflexivity|].
+  cbn [extract_strings]. cbn [strings_fit] in Hf.
+  assert (E : (lenN store <? o) = false) by lia. rewrite E.
+  set (l := skipn (N.to_nat o) store) in *. set (s := until_nul l) in *.
+  destruct (Nat.eqb (length s) (length l)) eqn:El; [discriminate|].
+  apply Nat.eqb_neq in El.
+  pose proof (length_until_nul l) as Hle. fold s in Hle.
+  assert (Hl : length l = (length store - N.to_nat o)%nat) by (subst l; apply skipn_length).
+  destruct (lenN s =? lenN store); [reflexivity|].
+  apply np_bind; [|intros; reflexivity].
+  apply IH.
+  - unfold lenN in *. lia.
+  - replace (N.to_nat (o + lenN s + 1)) with (S (length s) + N.to_nat o)%nat by (unfold lenN; lia).
+    rewrite <- skipn_skipn. exact Hf.
+Qed.
+
+Lemma np_extract_value : forall store ty o cnt,
+  entry_fits store ty o cnt = true -> np (extract_value store ty o cnt).
+Proof.
+  intros store ty o cnt H. unfold entry_fits in H. unfold extract_value.
+  destruct (lenN store <? o) eqn:Eo; [discriminate|].
+  destruct (ty =? 0); [reflexivity|].
+  destruct (ty <=? 5); [repeat np_step|].
+  destruct (ty =? 7); [repeat np_step|].
+  destruct ((ty =? 6) || (ty =? 8) || (ty =? 9)) eqn:Es; [|reflexivity].
+  destruct (lenN store <? o + cnt); [reflexivity|].
+  apply np_bind; [|intros; reflexivity].
+  assert (Hs : (if cnt <=? lenN store - o then strings_fit (N.to_nat cnt) (skipn (N.to_nat o) store) else false) = true).
+  { assert (T1 : (ty =? 1) = false) by lia. assert (T2 : (ty =? 2) = false) by lia.
+    assert (T3 : (ty =? 3) = false) by lia. assert (T4 : (ty =? 4) = false) by lia.
+    assert (T5 : (ty =? 5) = false) by lia.
+    rewrite T1, T2, T3, T4, T5 in H. cbn [orb] in H. exact H. }
+  destruct (cnt <=? lenN store - o); [|discriminate].
+  apply np_extract_strings; [lia|exact Hs].
+Qed.
+
+Lemma np_extract_all : forall n idx len store raw,
+  parse_index n idx len = Ok raw ->
+  index_fits n idx store = true ->
+  np (extract_all store raw).
+Proof.
+  induction n as [|n IH]; intros idx len store raw Hp Hf.
+  - cbn in Hp. inversion Hp. reflexivity.
+  - cbn [parse_index] in Hp. cbn [index_fits] in Hf. cbn [e_off] in Hp.
+    destruct (len <=? be32_at 8 idx); [discriminate|].
+    destruct (parse_index n (skipn 16 idx) len) as [r| |] eqn:Er; try discriminate.
+    cbn [bind] in Hp. inversion Hp; subst raw. clear Hp.
+    apply andb_prop in Hf as [Hf1 Hf2].
+    cbn [extract_all e_type e_off e_cnt e_tag].
+    apply np_bind; [apply np_extract_value; exact Hf1|]. intros v _.
+    apply np_bind; [eapply IH; eauto|]. intros. reflexivity.
+Qed.
+
+Lemma np_parse_index : forall n idx len, np (parse_index n idx len).
+Proof.
+  induction n as [|n IH]; intros; cbn [parse_index]; [reflexivity|].
+  destruct (len <=? _); [reflexivity|].
+  apply np_bind; [apply IH|]. intros. reflexivity.
+Qed.
+
+Lemma be32_at_firstn : forall o n l, (o + 4 <= n)%nat -> be32_at o (firstn n l) = be32_at o l.
+Proof.
+  intros o n l H. unfold be32_at. rewrite skipn_firstn_comm, firstn_firstn.
+  replace (Nat.min 4 (n - o)) with 4%nat by lia. reflexivity.
+Qed.
+
+Lemma np_skip_pad : forall len r, np (skip_pad len r).
+Proof. intros. unfold skip_pad. repeat (first [apply np_read_exact | np_step]). Qed.
+
+Lemma skip_pad_ok : forall len r r', skip_pad len r = Ok r' ->
+  r' = if len mod 8 =? 0 then r else skipn (N.to_nat (8 - len mod 8)) r.
+Proof.
+  intros len r r' H. unfold skip_pad in H. destruct (len mod 8 =? 0); [now inversion H|].
+  destruct (read_exact (8 - len mod 8) r) as [[a b]| |] eqn:E; try discriminate.
+  cbn [bind] in H. inversion H; subst. apply read_exact_ok in E. tauto.
+Qed.
+
+Lemma check_header_safe : forall r o, check_header r = Ok o ->
+  np (read_header r) /\ (forall h r', read_header r = Ok (h, r') -> o = Some r').
+Proof.
+  intros r o Hc. unfold read_header.
+  destruct (read_exact 16 r) as [[hd r1]| |] eqn:E16; cbn [bind];
+    [|split; [reflexivity|discriminate]|split; [pose proof (np_read_exact 16 r) as X; rewrite E16 in X; discriminate|discriminate]].
+  apply read_exact_ok in E16 as (Hhd & Hr1 & H16 & _).
+  change (N.to_nat 16) with 16%nat in Hhd, Hr1.
+  destruct (negb (bytes_eqb (firstn 3 hd) header_magic)); [split; [reflexivity|discriminate]|].
+  assert (Ecnt : be32_at 8 hd = be32_at 8 r) by (subst hd; apply be32_at_firstn; cbn; lia).
+  assert (Elen : be32_at 12 hd = be32_at 12 r) by (subst hd; apply be32_at_firstn; cbn; lia).
+  cbv zeta. rewrite Ecnt, Elen.
+  set (cnt := be32_at 8 r) in *. set (len := be32_at 12 r) in *.
+  destruct (max_header_size <? len); [split; [reflexivity|discriminate]|].
+  destruct (max_header_size <? cnt * 16); [split; [reflexivity|discriminate]|].
+  destruct (read_exact (16 * cnt) r1) as [[idx r2]| |] eqn:Eidx; cbn [bind];
+    [|split; [reflexivity|discriminate]|split; [pose proof (np_read_exact (16 * cnt) r1) as X; rewrite Eidx in X; discriminate|discriminate]].
+  apply read_exact_ok in Eidx as (Hidx & Hr2 & Hn & _).
+  destruct (parse_index (N.to_nat cnt) idx len) as [raw| |] eqn:Eraw; cbn [bind];
+    [|split; [reflexivity|discriminate]|].
+  2:{ pose proof (np_parse_index (N.to_nat cnt) idx len) as X. rewrite Eraw in X. discriminate. }
+  destruct (read_exact len r2) as [[store r3]| |] eqn:Est; cbn [bind];
+    [|split; [reflexivity|discriminate]|split; [pose proof (np_read_exact len r2) as X; rewrite Est in X; discriminate|discriminate]].
+  apply read_exact_ok in Est as (Hst & Hr3 & Hl & _).
+  (* what the validator saw *)
+  unfold check_header in Hc.
+  assert (E1 : (lenN r <? 16) = false) by lia. rewrite E1 in Hc.
+  fold cnt len in Hc. rewrite <- Hr1 in Hc.
+  destruct (lenN r1 / 16 <? cnt); [discriminate|].
+  rewrite <- Hidx, <- Hr2 in Hc.
+  destruct (lenN r2 <? len); [discriminate|].
+  rewrite <- Hst, <- Hr3 in Hc.
+  destruct (index_fits (N.to_nat cnt) idx store) eqn:Efit; cbn [negb] in Hc; [|discriminate].
+  inversion Hc; subst o. clear Hc.
+  assert (Hnp : np (extract_all store raw)) by (eapply np_extract_all; eauto).
+  split.
+  - apply np_bind; [exact Hnp|]. intros es _.
+    apply np_bind; [apply np_skip_pad|]. intros. reflexivity.
+  - intros h r' H.
+    destruct (extract_all store raw) as [es| |]; cbn [bind] in H; try discriminate.
+    destruct (skip_pad len r3) as [r4| |] eqn:Ep; cbn [bind] in H; try discriminate.
+    inversion H; subst. apply skip_pad_ok in Ep. subst r'. reflexivity.
+Qed.
+
+Lemma np_check_header : forall r, np (check_header r).
+Proof. intros. unfold check_header. repeat np_step. Qed.
+
+Lemma np_check_index : forall data, np (check_index data).
+Proof.
+  intros. unfold check_index. apply np_bind; [apply np_check_header|]. intros [r1|] _; [|reflexivity].
+  apply np_bind; [apply np_check_header|]. intros. reflexivity.
+Qed.
+
+Lemma np_read_lead : forall data, np (read_lead data).
+Proof. intros. unfold read_lead. repeat (first [apply np_read_exact | np_step]). Qed.
+
+Lemma read_lead_rest : forall data l r, read_lead data = Ok (l, r) -> r = skipn 96 data.
+Proof.
+  intros data l r H. unfold read_lead in H.
+  destruct (read_exact 96 data) as [[b rest]| |] eqn:E; cbn [bind] in H; try discriminate.
+  apply read_exact_ok in E as (_ & Hr & _).
+  change (N.to_nat 96) with 96%nat in Hr.
+  destruct (negb _); [discriminate|]. destruct (_ || _); [discriminate|].
+  inversion H; subst. reflexivity.
+Qed.
+
+(* after rpmCheckIndex has accepted the file, go-rpm's ReadPackageFile cannot panic *)
+Lemma check_index_safe : forall data, check_index data = Ok tt -> np (read_package_file data).
+Proof.
+  intros data Hc. unfold read_package_file.
+  apply np_bind; [apply np_read_lead|]. intros [l r0] Hl.
+  apply read_lead_rest in Hl. subst r0.
+  unfold check_index in Hc.
+  destruct (check_header (skipn 96 data)) as [o1| |] eqn:E1; cbn [bind] in Hc; try discriminate.
+  destruct (check_header_safe _ _ E1) as [Hnp1 Hrest1].
+  apply np_bind; [exact Hnp1|]. intros [h0 r1] Hh0.
+  apply Hrest1 in Hh0. subst o1.
+  destruct (check_header r1) as [o2| |] eqn:E2; cbn [bind] in Hc; try discriminate.
+  destruct (check_header_safe _ _ E2) as [Hnp2 _].
+  apply np_bind; [exact Hnp2|]. intros [h1 r2] _. reflexivity.
+Qed.
+
+Lemma np_sig_child : forall c other desc idx tag,
+  cfg_checked c = true -> (forall b, np (other b)) -> np (sig_child c other desc idx tag).
+Proof.
+  intros c other desc idx tag Hc Ho. unfold sig_child. rewrite Hc.
+  destruct (bytes_by_tag_checked tag idx) as [sig Hs]. rewrite Hs. cbn [bind].
+  destruct sig; [reflexivity|].
+  apply np_bind; [apply np_sig_attrs; exact Ho|]. intros. reflexivity.
+Qed.
+
+(* C19_no_failure: whatever the bytes, RPMFile returns a description or an error *)
+Lemma describe_no_panic : forall other data,
+  (forall b, np (other b)) -> np (describe other data).
+Proof.
+  intros other data Ho. unfold describe, describe_gen, cfg_now.
+  cbn [cfg_validate cfg_checked cfg_noregion].
+  apply np_bind; [apply np_check_index|]. intros [] Hci.
+  apply np_bind; [apply check_index_safe; exact Hci|]. intros p _.
+  cbv zeta.
+  destruct (string_by_tag_checked 1064 (h_entries (p_main p))) as [rv ->]; cbn [bind].
+  destruct (string_by_tag_checked 1000 (h_entries (p_main p))) as [s1 ->]; cbn [bind].
+  destruct (string_by_tag_checked 1001 (h_entries (p_main p))) as [s2 ->]; cbn [bind].
+  destruct (string_by_tag_checked 1002 (h_entries (p_main p))) as [s3 ->]; cbn [bind].
+  destruct (string_by_tag_checked 1022 (h_entries (p_main p))) as [s4 ->]; cbn [bind].
+  rewrite Bool.orb_true_r. cbn [negb].
+  destruct (bytes_by_tag_checked 1004 (h_entries (p_sig p))) as [md5 ->]; cbn [bind].
+  destruct (string_by_tag_checked 269 (h_entries (p_sig p))) as [sha1 ->]; cbn [bind].
+  destruct (string_by_tag_checked 273 (h_entries (p_sig p))) as [sha256 ->]; cbn [bind].
+  repeat (apply np_bind; [apply np_sig_child; [reflexivity|exact Ho]|intros]).
+  reflexivity.
+Qed.
+
+(* ================================================================ the header codec: parse (encode ...) *)
+
+Definition good_item (it : item) : Prop :=
+  it_tag it < 4294967296 /\
+  ((it_type it = 7 /\ it_cnt it = lenN (it_data it) /\ it_data it <> []) \/
+   (it_type it = 6 /\ it_cnt it = 1 /\ exists s, it_data it = s ++ [0] /\ nonul s = true)).
+
+Lemma good_item_data : forall it, good_item it -> 1 <= lenN (it_data it).
+Proof.
+  intros it [_ [(_ & _ & H)|(_ & _ & s & H & _)]].
+  - destruct (it_data it); [congruence|rewrite lenN_cons; lia].
+  - rewrite H, lenN_app, lenN_cons. lia.
+Qed.
+
+Lemma read_exact_app : forall a b n, n = lenN a -> a ++ b <> [] -> read_exact n (a ++ b) = Ok (a, b).
+Proof.
+  intros a b n Hn Hne. unfold read_exact.
+  destruct (a ++ b) as [|x l] eqn:E; [congruence|]. rewrite <- E.
+  assert (H : (lenN (a ++ b) <? n) = false) by (rewrite lenN_app; lia). rewrite H.
+  subst n. unfold lenN. rewrite Nat2N.id, firstn_app_exact, skipn_app_exact by reflexivity. reflexivity.
+Qed.
+
+Lemma be32_fields : forall A B C D more,
+  length A = 4%nat -> length B = 4%nat -> length C = 4%nat -> length D = 4%nat ->
+  be32_at 0 (A ++ B ++ C ++ D ++ more) = be_to_N A /\
+  be32_at 4 (A ++ B ++ C ++ D ++ more) = be_to_N B /\
+  be32_at 8 (A ++ B ++ C ++ D ++ more) = be_to_N C /\
+  be32_at 12 (A ++ B ++ C ++ D ++ more) = be_to_N D /\
+  skipn 16 (A ++ B ++ C ++ D ++ more) = more.
+Proof.
+  intros A B C D more HA HB HC HD.
+  destruct A as [|a1 [|a2 [|a3 [|a4 [|]]]]]; try discriminate.
+  destruct B as [|b1 [|b2 [|b3 [|b4 [|]]]]]; try discriminate.
+  destruct C as [|c1 [|c2 [|c3 [|c4 [|]]]]]; try discriminate.
+  destruct D as [|d1 [|d2 [|d3 [|d4 [|]]]]]; try discriminate.
+  repeat split.
+Qed.
+
+Fixpoint raw_view (off : N) (its : list item) : list entry :=
+  match its with
+  | [] => []
+  | it :: r => mkentry (it_tag it) (it_type it) off (it_cnt it) VNull :: raw_view (off + lenN (it_data it)) r
+  end.
+
+Lemma length_enc_index : forall its off, length (enc_index off its) = (16 * length its)%nat.
+Proof.
+  induction its as [|it r IH]; intros off; cbn [enc_index length]; [reflexivity|].
+  rewrite !app_length, !length_N_to_be, IH. lia.
+Qed.
+
+Lemma lenN_enc_store_cons : forall it r, lenN (enc_store (it :: r)) = lenN (it_data it) + lenN (enc_store r).
+Proof. intros. unfold enc_store. cbn [flat_map]. apply lenN_app. Qed.
+
+Lemma good_item_fields : forall it len, good_item it -> lenN (it_data it) <= len -> len < 4294967296 ->
+  it_type it < 4294967296 /\ it_cnt it < 4294967296.
+Proof.
+  intros it len [_ [(Ht & Hc & _)|(Ht & Hc & _)]] Hl Hlen; rewrite Ht, Hc; lia.
+Qed.
+
+Lemma parse_index_enc : forall its off len rest,
+  Forall good_item its ->
+  off + lenN (enc_store its) <= len -> len < 4294967296 ->
+  parse_index (length its) (enc_index off its ++ rest) len = Ok (raw_view off its).
+Proof.
+  induction its as [|it r IH]; intros off len rest Hg Hoff Hlen; [reflexivity|].
+  inversion Hg as [|? ? Hit Hr]; subst.
+  rewrite lenN_enc_store_cons in Hoff.
+  pose proof (good_item_data _ Hit) as Hd.
+  destruct (good_item_fields it len Hit ltac:(lia) Hlen) as [Hty Hcnt].
+  destruct Hit as [Htag _].
+  cbn [enc_index length parse_index raw_view].
+  rewrite <- !app_assoc.
+  destruct (be32_fields (N_to_be 4 (it_tag it)) (N_to_be 4 (it_type it)) (N_to_be 4 off) (N_to_be 4 (it_cnt it))
+              (enc_index (off + lenN (it_data it)) r ++ rest)
+              (length_N_to_be _ _) (length_N_to_be _ _) (length_N_to_be _ _) (length_N_to_be _ _))
+    as (E0 & E4 & E8 & E12 & E16).
+  rewrite E0, E4, E8, E12, E16. cbn [e_off].
+  rewrite !be_to_N_to_be4 by lia.
+  assert (Hlt : (len <=? off) = false) by lia. rewrite Hlt.
+  rewrite IH by (assumption || lia). reflexivity.
+Qed.
+
+Lemma until_nul_app : forall s r, nonul s = true -> until_nul (s ++ 0 :: r) = s.
+Proof.
+  induction s as [|b s IH]; intros r H; cbn [app until_nul]; [reflexivity|].
+  cbn [nonul forallb] in H. apply andb_prop in H as [Hb Hs].
+  destruct (b =? 0); [discriminate|]. f_equal. apply IH. exact Hs.
+Qed.
+
+Lemma slice_mid : forall pre d post, slice (lenN pre) (lenN d) (pre ++ d ++ post) = d.
+Proof.
+  intros. unfold slice, lenN. rewrite !Nat2N.id, skipn_app_exact, firstn_app_exact by reflexivity. reflexivity.
+Qed.
+
+Lemma extract_value_item : forall it pre post,
+  good_item it ->
+  extract_value (pre ++ it_data it ++ post) (it_type it) (lenN pre) (it_cnt it) = Ok (item_value it).
+Proof.
+  intros it pre post [_ [(Ht & Hc & Hd)|(Ht & Hc & s & Hs & Hn)]]; unfold extract_value, item_value; rewrite Ht, Hc.
+  - cbn [N.eqb N.leb N.compare Pos.eqb Pos.compare Pos.compare_cont orb].
+    change (7 <=? 5) with false. cbv iota.
+    assert (H : (lenN (pre ++ it_data it ++ post) <? lenN pre + lenN (it_data it)) = false)
+      by (rewrite !lenN_app; lia).
+    rewrite H, slice_mid. reflexivity.
+  - change (6 =? 0) with false. change (6 <=? 5) with false. change (6 =? 7) with false.
+    change ((6 =? 6) || (6 =? 8) || (6 =? 9)) with true. cbv iota.
+    rewrite Hs. rewrite !lenN_app, !lenN_cons, lenN_nil.
+    assert (H : (lenN pre + (lenN s + (1 + 0) + lenN post) <? lenN pre + 1) = false) by lia.
+    rewrite H. change (N.to_nat 1) with 1%nat. cbn [extract_strings].
+    rewrite !lenN_app, !lenN_cons, lenN_nil.
+    assert (H2 : (lenN pre + (lenN s + (1 + 0) + lenN post) <? lenN pre) = false) by lia.
+    rewrite H2. rewrite !to_nat_lenN, !skipn_app_exact by reflexivity.
+    rewrite <- app_assoc. cbn [app]. rewrite until_nul_app by exact Hn.
+    assert (H3 : (lenN s =? lenN pre + (lenN s + (1 + 0) + lenN post)) = false) by lia.
+    rewrite H3. cbn [bind]. rewrite until_nul_app by exact Hn. reflexivity.
+Qed.
+
+Lemma extract_all_enc : forall its pre post,
+  Forall good_item its ->
+  extract_all (pre ++ enc_store its ++ post) (raw_view (lenN pre) its) = Ok (entries_view (lenN pre) its).
+Proof.
+  induction its as [|it r IH]; intros pre post Hg; [reflexivity|].
+  inversion Hg as [|? ? Hit Hr]; subst.
+  cbn [raw_view extract_all entries_view e_type e_off e_cnt e_tag].
+  unfold enc_store. cbn [flat_map]. fold (enc_store r).
+  rewrite <- app_assoc.
+  rewrite extract_value_item by exact Hit. cbn [bind].
+  rewrite <- lenN_app.
+  replace (pre ++ it_data it ++ enc_store r ++ post) with ((pre ++ it_data it) ++ enc_store r ++ post)
+    by (rewrite <- app_assoc; reflexivity).
+  rewrite IH by exact Hr. reflexivity.
+Qed.
+
+Lemma skip_pad_app : forall len rest,
+  pad_len len <= lenN rest ->
+  skip_pad len rest = Ok (skipn (N.to_nat (pad_len len)) rest).
+Proof.
+  intros len rest H. unfold skip_pad, pad_len in *.
+  destruct (len mod 8 =? 0) eqn:E.
+  - apply N.eqb_eq in E. rewrite E. reflexivity.
+  - apply N.eqb_neq in E. pose proof (N.mod_lt len 8 ltac:(lia)).
+    assert (Hm : (8 - len mod 8) mod 8 = 8 - len mod 8) by (apply N.mod_small; lia).
+    rewrite Hm in *.
+    unfold read_exact. destruct rest as [|x rest]; [rewrite lenN_nil in H; lia|].
+    assert (H1 : (lenN (x :: rest) <? 8 - len mod 8) = false) by lia. rewrite H1. reflexivity.
+Qed.
+
+Definition items_ok (its : list item) : Prop :=
+  its <> [] /\ Forall good_item its /\ lenN (enc_store its) <= max_header_size /\ lenN its <= 1000.
+
+Lemma read_header_encode : forall its rest,
+  items_ok its ->
+  pad_len (lenN (enc_store its)) <= lenN rest ->
+  read_header (encode_header its ++ rest) =
+  Ok (header_view its, skipn (N.to_nat (pad_len (lenN (enc_store its)))) rest).
+Proof.
+  intros its rest (Hne & Hg & Hsz & Hcnt) Hpad. unfold max_header_size in Hsz.
+  assert (Hstore : 1 <= lenN (enc_store its)).
+  { destruct its as [|it r]; [congruence|]. inversion Hg; subst.
+    rewrite lenN_enc_store_cons. pose proof (good_item_data it ltac:(assumption)). lia. }
+  unfold read_header, encode_header.
+  set (intro := header_magic ++ [1; 0; 0; 0; 0] ++ N_to_be 4 (lenN its) ++ N_to_be 4 (lenN (enc_store its))).
+  replace ((header_magic ++ [1; 0; 0; 0; 0] ++ N_to_be 4 (lenN its) ++ N_to_be 4 (lenN (enc_store its))
+             ++ enc_index 0 its ++ enc_store its) ++ rest)
+    with (intro ++ (enc_index 0 its ++ enc_store its ++ rest))
+    by (subst intro; rewrite <- !app_assoc; reflexivity).
+  assert (Hintro : length intro = 16%nat)
+    by (subst intro; rewrite !app_length, !length_N_to_be; reflexivity).
+  rewrite read_exact_app;
+    [|unfold lenN; rewrite Hintro; reflexivity
+     |intros E; apply (f_equal (@length N)) in E; rewrite app_length, Hintro in E; cbn in E; lia].
+  cbn [bind].
+  assert (Hmagic : firstn 3 intro = header_magic) by reflexivity. rewrite Hmagic.
+  assert (Hv : nth 3 intro 0 = 1) by reflexivity. rewrite Hv.
+  assert (Ecnt : be32_at 8 intro = lenN its).
+  { subst intro. unfold be32_at. cbn [header_magic app skipn].
+    rewrite firstn_app_exact by (rewrite length_N_to_be; reflexivity). apply be_to_N_to_be4. lia. }
+  assert (Elen : be32_at 12 intro = lenN (enc_store its)).
+  { subst intro. unfold be32_at. cbn [header_magic app].
+    remember (N_to_be 4 (lenN its)) as A eqn:EA.
+    assert (HA : length A = 4%nat) by (subst A; apply length_N_to_be).
+    destruct A as [|a1 [|a2 [|a3 [|a4 [|]]]]]; try discriminate. cbn [app skipn].
+    rewrite <- (app_nil_r (N_to_be 4 (lenN (enc_store its)))).
+    rewrite firstn_app_exact by (rewrite length_N_to_be; reflexivity). apply be_to_N_to_be4. lia. }
+  change (bytes_eqb header_magic header_magic) with true. cbn [negb]. cbv zeta.
+  rewrite Ecnt, Elen. unfold max_header_size.
+  assert (H1 : (33554432 <? lenN (enc_store its)) = false) by lia. rewrite H1.
+  assert (H2 : (33554432 <? lenN its * 16) = false) by lia. rewrite H2.
+  rewrite read_exact_app;
+    [|unfold lenN; rewrite length_enc_index; lia
+     |intros E; apply (f_equal (@length N)) in E; rewrite !app_length in E; unfold lenN in Hstore; cbn in E; lia].
+  cbn [bind].
+  assert (Hn : N.to_nat (lenN its) = length its) by (unfold lenN; apply Nat2N.id). rewrite Hn.
+  rewrite <- (app_nil_r (enc_index 0 its)).
+  rewrite parse_index_enc by (assumption || lia). cbn [bind].
+  rewrite read_exact_app;
+    [|reflexivity
+     |intros E; apply (f_equal (@length N)) in E; rewrite !app_length in E; unfold lenN in Hstore; cbn in E; lia].
+  cbn [bind].
+  pose proof (extract_all_enc its [] [] Hg) as Hx. cbn [app] in Hx. rewrite app_nil_r in Hx.
+  change (lenN (@nil N)) with 0 in Hx. rewrite Hx. cbn [bind].
+  rewrite skip_pad_app by exact Hpad. cbn [bind]. reflexivity.
+Qed.
+
+(* ================================================================ C19_roundtrip *)
+
+Lemma good_bin : forall tag b, tag < 4294967296 -> b <> [] -> good_item (bin_item tag b).
+Proof. intros. split; [exact H|]. left. cbn. auto. Qed.
+
+Lemma good_str : forall tag s, tag < 4294967296 -> nonul s = true -> good_item (str_item tag s).
+Proof. intros. split; [exact H|]. right. cbn. repeat split. exists s. auto. Qed.
+
+Lemma Forall_opt_item : forall A (f : A -> item) o,
+  (forall a, o = Some a -> good_item (f a)) -> Forall good_item (opt_item f o).
+Proof. intros A f [a|] H; cbn; [constructor; [apply H; reflexivity|constructor]|constructor]. Qed.
+
+Lemma length_opt_item : forall A (f : A -> item) o, (length (opt_item f o) <= 1)%nat.
+Proof. intros A f [a|]; cbn; lia. Qed.
+
+Lemma encode_sig_nonempty : forall s, encode_sig s <> [].
+Proof. intros. unfold encode_sig. discriminate. Qed.
+
+Lemma region_trailer_nonempty : forall tag n, region_trailer tag n <> [].
+Proof.
+  intros tag n E. apply (f_equal (@length N)) in E. unfold region_trailer in E.
+  rewrite !app_length, !length_N_to_be in E. discriminate.
+Qed.
+
+Record pkg_facts (p : pkg) : Prop := mk_pkg_facts {
+  pf_major : k_major p = 3 \/ k_major p = 4;
+  pf_name : nonul (k_name p) = true; pf_version : nonul (k_version p) = true;
+  pf_release : nonul (k_release p) = true; pf_arch : nonul (k_arch p) = true;
+  pf_rpmversion : forall s, k_rpmversion p = Some s -> nonul s = true;
+  pf_sha1 : forall s, k_sha1 p = Some s -> nonul s = true;
+  pf_sha256 : forall s, k_sha256 p = Some s -> nonul s = true;
+  pf_md5 : forall d, k_md5 p = Some d -> d <> [];
+  pf_dsa : forall s, k_dsa p = Some s -> sig_ok s = true;
+  pf_rsa : forall s, k_rsa p = Some s -> sig_ok s = true;
+  pf_gpg : forall s, k_gpg p = Some s -> sig_ok s = true;
+  pf_pgp : forall s, k_pgp p = Some s -> sig_ok s = true;
+  pf_sigsize : lenN (enc_store (sig_items p)) <= max_header_size;
+  pf_mainsize : lenN (enc_store (main_items p)) <= max_header_size;
+  pf_payload : pad_len (lenN (enc_store (main_items p))) <= lenN (k_payload p) }.
+
+Lemma opt_ok_some : forall A (f : A -> bool) o a, opt_ok f o = true -> o = Some a -> f a = true.
+Proof. intros A f o a H E. subst. exact H. Qed.
+
+Lemma pkg_ok_facts : forall p, pkg_ok p = true -> pkg_facts p.
+Proof.
+  intros p H. unfold pkg_ok in H.
+  apply andb_prop in H as [H Hpay]. apply andb_prop in H as [H Hmain]. apply andb_prop in H as [H Hsig].
+  apply andb_prop in H as [H Hpgp]. apply andb_prop in H as [H Hgpg].
+  apply andb_prop in H as [H Hrsa]. apply andb_prop in H as [H Hdsa].
+  apply andb_prop in H as [H Hmd5]. apply andb_prop in H as [H H256]. apply andb_prop in H as [H H1].
+  apply andb_prop in H as [H Hrv]. apply andb_prop in H as [H Harch]. apply andb_prop in H as [H Hrel].
+  apply andb_prop in H as [H Hver]. apply andb_prop in H as [Hmaj Hname].
+  constructor; try assumption.
+  - apply Bool.orb_true_iff in Hmaj as [E|E]; apply N.eqb_eq in E; auto.
+  - intros s E. eapply opt_ok_some in Hrv; eauto.
+  - intros s E. eapply opt_ok_some in H1; eauto.
+  - intros s E. eapply opt_ok_some in H256; eauto.
+  - intros d E Hd. subst d. rewrite E in Hmd5. discriminate Hmd5.
+  - intros s E. eapply opt_ok_some in Hdsa; eauto.
+  - intros s E. eapply opt_ok_some in Hrsa; eauto.
+  - intros s E. eapply opt_ok_some in Hgpg; eauto.
+  - intros s E. eapply opt_ok_some in Hpgp; eauto.
+  - apply N.leb_le. exact Hsig.
+  - apply N.leb_le. exact Hmain.
+  - apply N.leb_le. exact Hpay.
+Qed.
+
+Lemma Forall_app2 : forall A (P : A -> Prop) l1 l2, Forall P l1 -> Forall P l2 -> Forall P (l1 ++ l2).
+Proof. intros. apply Forall_app. split; assumption. Qed.
+
+Lemma sig_items_ok : forall p, pkg_facts p -> items_ok (sig_items p).
+Proof.
+  intros p F. unfold items_ok. split; [|split; [|split]].
+  - unfold sig_items, with_region. discriminate.
+  - unfold sig_items, with_region.
+    constructor; [apply good_bin; [reflexivity|apply region_trailer_nonempty]|].
+    apply Forall_app2; [apply Forall_opt_item; intros a E; apply good_bin; [reflexivity|apply encode_sig_nonempty]|].
+    apply Forall_app2; [apply Forall_opt_item; intros a E; apply good_bin; [reflexivity|apply encode_sig_nonempty]|].
+    apply Forall_app2; [apply Forall_opt_item; intros a E; apply good_str; [reflexivity|eapply pf_sha1; eauto]|].
+    apply Forall_app2; [apply Forall_opt_item; intros a E; apply good_str; [reflexivity|eapply pf_sha256; eauto]|].
+    apply Forall_app2; [apply Forall_opt_item; intros a E; apply good_bin; [reflexivity|apply encode_sig_nonempty]|].
+    apply Forall_app2; [apply Forall_opt_item; intros a E; apply good_bin; [reflexivity|eapply pf_md5; eauto]|].
+    apply Forall_opt_item; intros a E; apply good_bin; [reflexivity|apply encode_sig_nonempty].
+  - exact (pf_sigsize p F).
+  - unfold sig_items, with_region, lenN. cbn [length]. rewrite !app_length.
+    pose proof (length_opt_item _ (fun s => bin_item 267 (encode_sig s)) (k_dsa p)).
+    pose proof (length_opt_item _ (fun s => bin_item 268 (encode_sig s)) (k_rsa p)).
+    pose proof (length_opt_item _ (str_item 269) (k_sha1 p)).
+    pose proof (length_opt_item _ (str_item 273) (k_sha256 p)).
+    pose proof (length_opt_item _ (fun s => bin_item 1002 (encode_sig s)) (k_pgp p)).
+    pose proof (length_opt_item _ (bin_item 1004) (k_md5 p)).
+    pose proof (length_opt_item _ (fun s => bin_item 1005 (encode_sig s)) (k_gpg p)).
+    lia.
+Qed.
+
+Lemma main_items_ok : forall p, pkg_facts p -> items_ok (main_items p).
+Proof.
+  intros p F. unfold items_ok. split; [|split; [|split]].
+  - unfold main_items, with_region. discriminate.
+  - unfold main_items, with_region.
+    constructor; [apply good_bin; [reflexivity|apply region_trailer_nonempty]|].
+    apply Forall_app2.
+    + constructor; [apply good_str; [reflexivity|apply (pf_name p F)]|].
+      constructor; [apply good_str; [reflexivity|apply (pf_version p F)]|].
+      constructor; [apply good_str; [reflexivity|apply (pf_release p F)]|].
+      constructor; [apply good_str; [reflexivity|apply (pf_arch p F)]|]. constructor.
+    + apply Forall_opt_item. intros a E. apply good_str; [reflexivity|]. eapply pf_rpmversion; eauto.
+  - exact (pf_mainsize p F).
+  - unfold main_items, with_region, lenN. cbn [length app].
+    pose proof (length_opt_item _ (str_item 1064) (k_rpmversion p)). lia.
+Qed.
+
+Lemma length_encode_lead : forall p, length (encode_lead p) = 96%nat.
+Proof.
+  intros p. unfold encode_lead. rewrite !app_length, !repeat_length. cbn [rpm_magic length].
+  assert (length (lead_name p) <= 66)%nat by (unfold lead_name; apply firstn_le_length). lia.
+Qed.
+
+Lemma read_lead_encode : forall p rest, pkg_facts p ->
+  read_lead (encode_lead p ++ rest) = Ok (mklead (k_major p) (k_minor p), rest).
+Proof.
+  intros p rest F. unfold read_lead.
+  rewrite read_exact_app;
+    [|unfold lenN; rewrite length_encode_lead; reflexivity
+     |intros E; apply (f_equal (@length N)) in E; rewrite app_length, length_encode_lead in E; discriminate].
+  cbn [bind].
+  assert (H4 : firstn 4 (encode_lead p) = rpm_magic) by reflexivity. rewrite H4.
+  change (bytes_eqb rpm_magic rpm_magic) with true. cbn [negb].
+  assert (Hm : nth 4 (encode_lead p) 0 = k_major p) by reflexivity.
+  assert (Hn : nth 5 (encode_lead p) 0 = k_minor p) by reflexivity.
+  rewrite Hm, Hn.
+  assert (Hv : ((k_major p <? 3) || (4 <? k_major p)) = false) by (destruct (pf_major p F) as [->| ->]; reflexivity).
+  rewrite Hv. reflexivity.
+Qed.
+
+(* go-rpm, run on the canonical layout of a well-formed package, returns exactly what was laid out *)
+Lemma parse_encode : forall p, pkg_ok p = true -> read_package_file (encode p) = Ok (view p).
+Proof.
+  intros p Hok. apply pkg_ok_facts in Hok as F.
+  unfold read_package_file, encode. cbv zeta.
+  rewrite read_lead_encode by exact F. cbn [bind].
+  rewrite read_header_encode;
+    [|apply sig_items_ok; exact F
+     |rewrite lenN_app; unfold lenN at 2; rewrite repeat_length, N2Nat.id; lia].
+  cbn [bind].
+  rewrite skipn_app_exact by (rewrite repeat_length; reflexivity).
+  rewrite read_header_encode; [|apply main_items_ok; exact F|exact (pf_payload p F)].
+  reflexivity.
+Qed.
+
+(* ================================================================ the signature packet codec *)
+
+Lemma need_app : forall a b n, n = length a -> need n (a ++ b) = Ok (a, b).
+Proof.
+  intros a b n Hn. unfold need. subst n.
+  assert (H : Nat.ltb (length (a ++ b)) (length a) = false) by (apply Nat.ltb_ge; rewrite app_length; lia).
+  rewrite H, firstn_app_exact, skipn_app_exact by reflexivity. reflexivity.
+Qed.
+
+Lemma N_to_be_2 : forall n, N_to_be 2 n = [(n / 256) mod 256; n mod 256].
+Proof. reflexivity. Qed.
+
+Lemma read_mpi_enc : forall m rest, lenN m < 8192 -> read_mpi (enc_mpi m ++ rest) = Ok rest.
+Proof.
+  intros m rest Hm. unfold read_mpi, enc_mpi. rewrite N_to_be_2.
+  cbn [app]. unfold need at 1. cbn [length Nat.ltb Nat.leb firstn skipn bind nth].
+  set (n := 8 * lenN m).
+  assert (Hhi : (n / 256) mod 256 = n / 256).
+  { apply N.mod_small. apply N.div_lt_upper_bound; subst n; lia. }
+  assert (Hn : (n / 256) mod 256 * 256 + n mod 256 = n).
+  { rewrite Hhi. pose proof (N.div_mod n 256). lia. }
+  rewrite Hn.
+  assert (Hb : (n + 7) / 8 = lenN m).
+  { symmetry. apply N.div_unique with (r := 7); subst n; lia. }
+  rewrite Hb, to_nat_lenN, need_app by reflexivity. reflexivity.
+Qed.
+
+Lemma read_mpis_enc : forall mpis rest,
+  forallb (fun m => lenN m <? 8192) mpis = true ->
+  read_mpis (length mpis) (flat_map enc_mpi mpis ++ rest) = Ok tt.
+Proof.
+  induction mpis as [|m r IH]; intros rest H; [reflexivity|].
+  cbn [forallb] in H. apply andb_prop in H as [Hm Hr].
+  cbn [length read_mpis flat_map]. rewrite <- app_assoc.
+  rewrite read_mpi_enc by lia. cbn [bind]. apply IH. exact Hr.
+Qed.
+
+Lemma firstn_N_all : forall l, firstn_N (lenN l) l = l.
+Proof. intros. unfold firstn_N. rewrite N.leb_refl. reflexivity. Qed.
+
+Lemma pkt_header_new : forall body, lenN body < 4294967296 ->
+  read_pkt_header (194 :: new_len (lenN body) ++ body) = Ok (2, body).
+Proof.
+  intros body Hb. unfold read_pkt_header.
+  change (194 <? 128) with false. change ((194 / 64) mod 2 =? 0) with false. change (194 mod 64) with 2.
+  cbv iota. unfold new_len. set (n := lenN body) in *.
+  destruct (n <? 192) eqn:E1.
+  - cbn [app]. rewrite E1. subst n. rewrite firstn_N_all. reflexivity.
+  - destruct (n <? 8384) eqn:E2.
+    + cbn [app].
+      assert (Hq : (n - 192) / 256 < 32) by (apply N.div_lt_upper_bound; lia).
+      assert (H1 : (192 + (n - 192) / 256 <? 192) = false) by lia.
+      assert (H2 : (192 + (n - 192) / 256 <? 224) = true) by lia.
+      rewrite H1, H2.
+      assert (Hv : (192 + (n - 192) / 256 - 192) * 256 + (n - 192) mod 256 + 192 = n).
+      { pose proof (N.div_mod (n - 192) 256). lia. }
+      rewrite Hv. subst n. rewrite firstn_N_all. reflexivity.
+    + cbn [app]. change (255 <? 192) with false. change (255 <? 224) with false. change (255 <? 255) with false.
+      cbv iota. rewrite need_app by (rewrite length_N_to_be; reflexivity). cbn [bind].
+      rewrite be_to_N_to_be4 by exact Hb. subst n. rewrite firstn_N_all. reflexivity.
+Qed.
+
+Lemma parse_subpackets_nil : forall f st h, parse_subpackets f st [] h = Ok st.
+Proof. intros [|f] st h; reflexivity. Qed.
+
+Lemma sub_created : forall f st c1 c2 c3 c4,
+  parse_subpackets (S f) st [5; 2; c1; c2; c3; c4] true
+  = Ok (mksstate true (ss_issuer st) (ss_embedded st)).
+Proof.
+  intros. transitivity (parse_subpackets f (mksstate true (ss_issuer st) (ss_embedded st)) [] true);
+    [reflexivity|apply parse_subpackets_nil].
+Qed.
+
+Lemma sub_issuer : forall f st i1 i2 i3 i4 i5 i6 i7 i8,
+  parse_subpackets (S f) st [9; 16; i1; i2; i3; i4; i5; i6; i7; i8] false
+  = Ok (mksstate (ss_created st) (Some (be_to_N [i1; i2; i3; i4; i5; i6; i7; i8])) (ss_embedded st)).
+Proof.
+  intros. transitivity (parse_subpackets f (mksstate (ss_created st) (Some (be_to_N [i1; i2; i3; i4; i5; i6; i7; i8])) (ss_embedded st)) [] false);
+    [reflexivity|apply parse_subpackets_nil].
+Qed.
+
+Lemma parse_sig4_canon : forall t a h c1 c2 c3 c4 i1 i2 i3 i4 i5 i6 i7 i8 h1 h2 mpis k,
+  sig4_algo_ok a = true -> hash_known h = true -> sig_mpis a = Some k -> length mpis = k ->
+  forallb (fun m => lenN m <? 8192) mpis = true ->
+  let body := 4 :: t :: a :: h :: 0 :: 6 :: 5 :: 2 :: c1 :: c2 :: c3 :: c4 :: 0 :: 10 :: 9 :: 16
+                :: i1 :: i2 :: i3 :: i4 :: i5 :: i6 :: i7 :: i8 :: h1 :: h2 :: flat_map enc_mpi mpis in
+  parse_sig4 (length body) body = Ok (PSig4 t a h (Some (be_to_N [i1; i2; i3; i4; i5; i6; i7; i8]))).
+Proof.
+  intros t a h c1 c2 c3 c4 i1 i2 i3 i4 i5 i6 i7 i8 h1 h2 mpis k Ha Hh Hk Hlen Hm body. subst body.
+  cbn [length]. rewrite parse_sig4_S.
+  change (4 =? 4) with true. rewrite Ha, Hh. cbn [negb].
+  change (N.to_nat (0 * 256 + 6)) with 6%nat.
+  unfold need at 1. cbn [length Nat.ltb Nat.leb firstn skipn bind].
+  rewrite sub_created. cbn [bind ss_created negb].
+  unfold need at 1. cbn [length Nat.ltb Nat.leb firstn skipn bind nth].
+  change (N.to_nat (0 * 256 + 10)) with 10%nat.
+  unfold need at 1. cbn [length Nat.ltb Nat.leb firstn skipn bind].
+  rewrite sub_issuer. cbn [bind ss_issuer].
+  unfold need at 1. cbn [length Nat.ltb Nat.leb firstn skipn bind].
+  rewrite Hk. subst k. rewrite <- (app_nil_r (flat_map enc_mpi mpis)).
+  rewrite read_mpis_enc by exact Hm. reflexivity.
+Qed.
+
+Lemma parse_sig3_canon : forall t a h c1 c2 c3 c4 i1 i2 i3 i4 i5 i6 i7 i8 h1 h2 mpis k,
+  sig3_algo_ok a = true -> hash_known h = true -> sig_mpis a = Some k -> length mpis = k ->
+  forallb (fun m => lenN m <? 8192) mpis = true ->
+  parse_sig3 (3 :: 5 :: t :: c1 :: c2 :: c3 :: c4 :: i1 :: i2 :: i3 :: i4 :: i5 :: i6 :: i7 :: i8 :: a :: h
+                :: h1 :: h2 :: flat_map enc_mpi mpis)
+  = Ok (PSig3 a h (be_to_N [i1; i2; i3; i4; i5; i6; i7; i8])).
+Proof.
+  intros t a h c1 c2 c3 c4 i1 i2 i3 i4 i5 i6 i7 i8 h1 h2 mpis k Ha Hh Hk Hlen Hm.
+  unfold parse_sig3.
+  change ((3 <? 2) || (3 <? 3)) with false. change (5 =? 5) with true. cbn [negb].
+  unfold need at 1. cbn [length Nat.ltb Nat.leb firstn skipn bind].
+  unfold need at 1. cbn [length Nat.ltb Nat.leb firstn skipn bind].
+  unfold need at 1. cbn [length Nat.ltb Nat.leb firstn skipn bind nth].
+  rewrite Ha, Hh. cbn [negb].
+  unfold need at 1. cbn [length Nat.ltb Nat.leb firstn skipn bind].
+  rewrite Hk. subst k. rewrite <- (app_nil_r (flat_map enc_mpi mpis)).
+  rewrite read_mpis_enc by exact Hm. reflexivity.
+Qed.
+
+Definition sig_view (s : sigpkt) : pkt :=
+  if sp_v3 s then PSig3 (sp_algo s) (sp_hash s) (sp_issuer s)
+  else PSig4 (sp_sigtype s) (sp_algo s) (sp_hash s) (Some (sp_issuer s)).
+
+Lemma length_flat_enc_mpi : forall mpis n,
+  forallb (fun m => lenN m <? 8192) mpis = true -> length mpis = n ->
+  lenN (flat_map enc_mpi mpis) <= 8194 * N.of_nat n.
+Proof.
+  induction mpis as [|m r IH]; intros n H Hn; [cbn; lia|].
+  cbn [forallb] in H. apply andb_prop in H as [Hm Hr].
+  cbn [flat_map]. rewrite lenN_app. cbn [length] in Hn. specialize (IH _ Hr eq_refl).
+  unfold enc_mpi at 1. rewrite lenN_app.
+  assert (H2 : lenN (N_to_be 2 (8 * lenN m)) = 2) by (unfold lenN; rewrite length_N_to_be; reflexivity).
+  rewrite H2. lia.
+Qed.
+
+(* packet.Read on the canonical encoding of a signature returns its algorithm, hash and issuer *)
+Lemma packet_read_encode : forall other s, sig_ok s = true ->
+  packet_read other (encode_sig s) = Ok (sig_view s).
+Proof.
+  intros other s H. unfold sig_ok in H.
+  apply andb_prop in H as [H Hm]. apply andb_prop in H as [H Hk]. apply andb_prop in H as [H Htag].
+  apply andb_prop in H as [H Hc]. apply andb_prop in H as [H Hi]. apply andb_prop in H as [Ha Hh].
+  destruct (sig_mpis (sp_algo s)) as [k|] eqn:Ek; [|discriminate].
+  apply Nat.eqb_eq in Hk. apply Nat.eqb_eq in Htag.
+  assert (Hk2 : (k <= 2)%nat).
+  { unfold sig_mpis in Ek. destruct (_ || _); [inversion Ek; lia|]. destruct (_ || _); [inversion Ek; lia|discriminate]. }
+  pose proof (length_flat_enc_mpi _ k Hm Hk) as Hml.
+  remember (sp_hashtag s) as T eqn:ET. destruct T as [|h1 [|h2 [|]]]; try discriminate.
+  remember (N_to_be 4 (sp_created s)) as C eqn:EC.
+  assert (HC : length C = 4%nat) by (subst C; apply length_N_to_be).
+  destruct C as [|c1 [|c2 [|c3 [|c4 [|]]]]]; try discriminate.
+  remember (N_to_be 8 (sp_issuer s)) as I eqn:EI.
+  assert (HI : length I = 8%nat) by (subst I; apply length_N_to_be).
+  destruct I as [|i1 [|i2 [|i3 [|i4 [|i5 [|i6 [|i7 [|i8 [|]]]]]]]]]; try discriminate.
+  assert (Hiss : be_to_N [i1; i2; i3; i4; i5; i6; i7; i8] = sp_issuer s).
+  { rewrite EI. apply be_to_N_to_be8. lia. }
+  unfold packet_read, encode_sig, sig_view.
+  destruct (sp_v3 s) eqn:Ev.
+  - assert (Eb : sig_body s = 3 :: 5 :: sp_sigtype s :: c1 :: c2 :: c3 :: c4 :: i1 :: i2 :: i3 :: i4 :: i5 :: i6 :: i7 :: i8
+                   :: sp_algo s :: sp_hash s :: h1 :: h2 :: flat_map enc_mpi (sp_mpis s)).
+    { unfold sig_body. rewrite Ev, <- EC, <- EI, <- ET. reflexivity. }
+    rewrite Eb. rewrite pkt_header_new by (rewrite !lenN_cons; lia).
+    cbn [bind]. change (2 =? 2) with true. cbv iota. change (3 <? 4) with true. cbv iota.
+    rewrite (parse_sig3_canon _ _ _ _ _ _ _ _ _ _ _ _ _ _ _ _ _ _ k) by assumption.
+    rewrite Hiss. reflexivity.
+  - assert (Eb : sig_body s = 4 :: sp_sigtype s :: sp_algo s :: sp_hash s :: 0 :: 6 :: 5 :: 2 :: c1 :: c2 :: c3 :: c4
+                   :: 0 :: 10 :: 9 :: 16 :: i1 :: i2 :: i3 :: i4 :: i5 :: i6 :: i7 :: i8 :: h1 :: h2
+                   :: flat_map enc_mpi (sp_mpis s)).
+    { unfold sig_body. rewrite Ev, <- EC, <- EI, <- ET. reflexivity. }
+    rewrite Eb. rewrite pkt_header_new by (rewrite !lenN_cons; lia).
+    cbn [bind]. change (2 =? 2) with true. cbv iota. change (4 <? 4) with false. cbv iota.
+    rewrite (parse_sig4_canon _ _ _ _ _ _ _ _ _ _ _ _ _ _ _ _ _ _ k) by assumption.
+    rewrite Hiss. reflexivity.
+Qed.
+
+(* ================================================================ rpmCheckIndex accepts the canonical layout *)
+
+Lemma strings_fit_one : forall s rest, nonul s = true -> strings_fit 1 (s ++ 0 :: rest) = true.
+Proof.
+  intros s rest H. cbn [strings_fit]. rewrite until_nul_app by exact H.
+  assert (E : Nat.eqb (length s) (length (s ++ 0 :: rest)) = false).
+  { apply Nat.eqb_neq. rewrite app_length. cbn [length]. lia. }
+  rewrite E. reflexivity.
+Qed.
+
+Lemma entry_fits_item : forall it pre post, good_item it ->
+  entry_fits (pre ++ it_data it ++ post) (it_type it) (lenN pre) (it_cnt it) = true.
+Proof.
+  intros it pre post [_ [(Ht & Hc & Hd)|(Ht & Hc & s & Hs & Hn)]]; unfold entry_fits; rewrite Ht, Hc.
+  - assert (H : (lenN (pre ++ it_data it ++ post) <? lenN pre) = false) by (rewrite !lenN_app; lia).
+    rewrite H. change ((7 =? 1) || (7 =? 2) || (7 =? 7)) with true. cbv iota.
+    rewrite !lenN_app. lia.
+  - assert (H : (lenN (pre ++ it_data it ++ post) <? lenN pre) = false) by (rewrite !lenN_app; lia).
+    rewrite H. change ((6 =? 1) || (6 =? 2) || (6 =? 7)) with false.
+    change (6 =? 3) with false. change (6 =? 4) with false. change (6 =? 5) with false.
+    change ((6 =? 6) || (6 =? 8) || (6 =? 9)) with true. cbv iota.
+    rewrite Hs.
+    assert (H1 : (1 <=? lenN (pre ++ (s ++ [0]) ++ post) - lenN pre) = true)
+      by (rewrite !lenN_app, lenN_cons; lia).
+    rewrite H1. change (N.to_nat 1) with 1%nat.
+    rewrite to_nat_lenN, skipn_app_exact by reflexivity. rewrite <- app_assoc. cbn [app].
+    apply strings_fit_one. exact Hn.
+Qed.
+
+Lemma index_fits_enc : forall its pre post rest, Forall good_item its ->
+  lenN pre + lenN (enc_store its) + lenN post < 4294967296 ->
+  index_fits (length its) (enc_index (lenN pre) its ++ rest) (pre ++ enc_store its ++ post) = true.
+Proof.
+  induction its as [|it r IH]; intros pre post rest Hg Hsz; [reflexivity|].
+  inversion Hg as [|? ? Hit Hr]; subst.
+  rewrite lenN_enc_store_cons in Hsz.
+  destruct (good_item_fields it 4294967295 Hit ltac:(lia) ltac:(lia)) as [Hty Hcnt].
+  pose proof Hit as [Htag _].
+  cbn [enc_index length index_fits].
+  rewrite <- !app_assoc.
+  destruct (be32_fields (N_to_be 4 (it_tag it)) (N_to_be 4 (it_type it)) (N_to_be 4 (lenN pre)) (N_to_be 4 (it_cnt it))
+              (enc_index (lenN pre + lenN (it_data it)) r ++ rest)
+              (length_N_to_be _ _) (length_N_to_be _ _) (length_N_to_be _ _) (length_N_to_be _ _))
+    as (E0 & E4 & E8 & E12 & E16).
+  rewrite E4, E8, E12, E16.
+  rewrite !be_to_N_to_be4 by lia.
+  unfold enc_store. cbn [flat_map]. fold (enc_store r). rewrite <- app_assoc.
+  rewrite entry_fits_item by exact Hit. cbn [andb].
+  rewrite <- lenN_app.
+  replace (pre ++ it_data it ++ enc_store r ++ post) with ((pre ++ it_data it) ++ enc_store r ++ post)
+    by (rewrite <- app_assoc; reflexivity).
+  apply IH; [exact Hr|]. rewrite lenN_app. lia.
+Qed.
+
+Definition header_intro (its : list item) : bytes :=
+  header_magic ++ [1; 0; 0; 0; 0] ++ N_to_be 4 (lenN its) ++ N_to_be 4 (lenN (enc_store its)).
+
+Lemma encode_header_intro : forall its rest,
+  encode_header its ++ rest = header_intro its ++ enc_index 0 its ++ enc_store its ++ rest.
+Proof. intros. unfold encode_header, header_intro. rewrite <- !app_assoc. reflexivity. Qed.
+
+Lemma length_header_intro : forall its, length (header_intro its) = 16%nat.
+Proof. intros. unfold header_intro. rewrite !app_length, !length_N_to_be. reflexivity. Qed.
+
+Lemma be32_at_app : forall o a b, (o + 4 <= length a)%nat -> be32_at o (a ++ b) = be32_at o a.
+Proof.
+  intros o a b H. unfold be32_at. rewrite skipn_app, firstn_app.
+  replace (4 - length (skipn o a))%nat with 0%nat by (rewrite skipn_length; lia).
+  replace (o - length a)%nat with 0%nat by lia. rewrite firstn_O, app_nil_r. reflexivity.
+Qed.
+
+Lemma header_intro_cnt : forall its, lenN its < 4294967296 -> be32_at 8 (header_intro its) = lenN its.
+Proof.
+  intros its H. unfold header_intro, be32_at. cbn [header_magic app skipn].
+  rewrite firstn_app_exact by (rewrite length_N_to_be; reflexivity). apply be_to_N_to_be4. exact H.
+Qed.
+
+Lemma header_intro_len : forall its, lenN (enc_store its) < 4294967296 ->
+  be32_at 12 (header_intro its) = lenN (enc_store its).
+Proof.
+  intros its H. unfold header_intro, be32_at. cbn [header_magic app].
+  remember (N_to_be 4 (lenN its)) as A eqn:EA.
+  assert (HA : length A = 4%nat) by (subst A; apply length_N_to_be).
+  destruct A as [|a1 [|a2 [|a3 [|a4 [|]]]]]; try discriminate. cbn [app skipn].
+  rewrite <- (app_nil_r (N_to_be 4 (lenN (enc_store its)))).
+  rewrite firstn_app_exact by (rewrite length_N_to_be; reflexivity). apply be_to_N_to_be4. exact H.
+Qed.
+
+Lemma check_header_encode : forall its rest, items_ok its ->
+  check_header (encode_header its ++ rest) =
+  Ok (Some (skipn (N.to_nat (pad_len (lenN (enc_store its)))) rest)).
+Proof.
+  intros its rest (Hne & Hg & Hsz & Hcnt). unfold max_header_size in Hsz.
+  rewrite encode_header_intro. unfold check_header.
+  pose proof (length_header_intro its) as Hli.
+  assert (H16 : (lenN (header_intro its ++ enc_index 0 its ++ enc_store its ++ rest) <? 16) = false).
+  { rewrite lenN_app. unfold lenN at 1. rewrite Hli. lia. }
+  rewrite H16.
+  rewrite !be32_at_app by (rewrite Hli; lia).
+  rewrite header_intro_cnt, header_intro_len by lia.
+  rewrite skipn_app_exact by (rewrite Hli; reflexivity).
+  assert (Hidx : lenN (enc_index 0 its) = 16 * lenN its) by (unfold lenN; rewrite length_enc_index; lia).
+  assert (H1 : (lenN (enc_index 0 its ++ enc_store its ++ rest) / 16 <? lenN its) = false).
+  { apply N.ltb_ge. apply N.div_le_lower_bound; [lia|]. rewrite lenN_app. lia. }
+  rewrite H1.
+  replace (N.to_nat (16 * lenN its)) with (length (enc_index 0 its)) by (rewrite length_enc_index; unfold lenN; lia).
+  rewrite firstn_app_exact, skipn_app_exact by reflexivity.
+  assert (H2 : (lenN (enc_store its ++ rest) <? lenN (enc_store its)) = false) by (rewrite lenN_app; lia).
+  rewrite H2. rewrite !to_nat_lenN, firstn_app_exact, skipn_app_exact by reflexivity.
+  pose proof (index_fits_enc its [] [] [] Hg) as Hf. cbn [app] in Hf. rewrite !app_nil_r in Hf.
+  change (lenN (@nil N)) with 0 in Hf. rewrite Hf by lia. cbn [negb].
+  unfold pad_len. destruct (lenN (enc_store its) mod 8 =? 0) eqn:E.
+  - apply N.eqb_eq in E. rewrite E. reflexivity.
+  - apply N.eqb_neq in E. pose proof (N.mod_lt (lenN (enc_store its)) 8 ltac:(lia)).
+    rewrite (N.mod_small (8 - _) 8) by lia. reflexivity.
+Qed.
+
+Lemma check_index_encode : forall p, pkg_ok p = true -> check_index (encode p) = Ok tt.
+Proof.
+  intros p Hok. apply pkg_ok_facts in Hok as F.
+  unfold check_index, encode. cbv zeta.
+  rewrite skipn_app_exact by (rewrite length_encode_lead; reflexivity).
+  rewrite check_header_encode by (apply sig_items_ok; exact F). cbn [bind].
+  rewrite skipn_app_exact by (rewrite repeat_length; reflexivity).
+  rewrite check_header_encode by (apply main_items_ok; exact F). reflexivity.
+Qed.
+
+(* ================================================================ C19_faithful *)
+
+Definition str_of (o : option value) : bytes :=
+  match o with Some (VStrings (s :: _)) => s | _ => [] end.
+Definition bytes_of (o : option value) : bytes :=
+  match o with Some (VBytes b) => b | _ => [] end.
+Definition find_tag (t : N) (its : list item) : option item := find (fun it => it_tag it =? t) its.
+
+Lemma index_by_tag_view : forall t its off,
+  option_map e_val (index_by_tag t (entries_view off its)) = option_map item_value (find_tag t its).
+Proof.
+  unfold find_tag. induction its as [|it r IH]; intros off; [reflexivity|].
+  cbn [entries_view index_by_tag find e_tag]. destruct (it_tag it =? t); [reflexivity|apply IH].
+Qed.
+
+Lemma string_by_tag_view : forall t its off,
+  string_by_tag true t (entries_view off its) = Ok (str_of (option_map item_value (find_tag t its))).
+Proof.
+  intros. rewrite <- (index_by_tag_view t its off). unfold string_by_tag.
+  destruct (index_by_tag t (entries_view off its)) as [e|]; [|reflexivity].
+  cbn [option_map str_of]. destruct (e_val e) as [|b|ty raw|[|s l]]; reflexivity.
+Qed.
+
+Lemma bytes_by_tag_view : forall t its off,
+  bytes_by_tag true t (entries_view off its) = Ok (bytes_of (option_map item_value (find_tag t its))).
+Proof.
+  intros. rewrite <- (index_by_tag_view t its off). unfold bytes_by_tag.
+  destruct (index_by_tag t (entries_view off its)) as [e|]; [|reflexivity].
+  cbn [option_map bytes_of]. destruct (e_val e); reflexivity.
+Qed.
+
+Lemma until_nul_str : forall s, nonul s = true -> until_nul (s ++ [0]) = s.
+Proof. intros. apply until_nul_app. exact H. Qed.
+
+Ltac main_lookup F :=
+  intros; rewrite string_by_tag_view; unfold find_tag, main_items, with_region;
+  destruct (k_rpmversion _) eqn:?; cbn; try reflexivity; f_equal;
+  apply until_nul_str; first [apply (pf_name _ F) | apply (pf_version _ F) | apply (pf_release _ F) | apply (pf_arch _ F)
+                             | eapply pf_rpmversion; eauto].
+
+Lemma main_name : forall p off, pkg_facts p -> string_by_tag true 1000 (entries_view off (main_items p)) = Ok (k_name p).
+Proof. intros p off F. main_lookup F. Qed.
+Lemma main_version : forall p off, pkg_facts p -> string_by_tag true 1001 (entries_view off (main_items p)) = Ok (k_version p).
+Proof. intros p off F. main_lookup F. Qed.
+Lemma main_release : forall p off, pkg_facts p -> string_by_tag true 1002 (entries_view off (main_items p)) = Ok (k_release p).
+Proof. intros p off F. main_lookup F. Qed.
+Lemma main_arch : forall p off, pkg_facts p -> string_by_tag true 1022 (entries_view off (main_items p)) = Ok (k_arch p).
+Proof. intros p off F. main_lookup F. Qed.
+Lemma main_rpmversion : forall p off, pkg_facts p ->
+  string_by_tag true 1064 (entries_view off (main_items p)) = Ok (stored (k_rpmversion p)).
+Proof. intros p off F. main_lookup F. Qed.
+
+Ltac sig_cases p :=
+  unfold find_tag, sig_items, with_region;
+  destruct (k_dsa p), (k_rsa p), (k_sha1 p), (k_sha256 p), (k_pgp p), (k_md5 p), (k_gpg p); reflexivity.
+
+Lemma find_sig_md5 : forall p, option_map item_value (find_tag 1004 (sig_items p)) = option_map VBytes (k_md5 p).
+Proof. intros p. sig_cases p. Qed.
+Lemma find_sig_sha1 : forall p,
+  option_map item_value (find_tag 269 (sig_items p)) = option_map (fun s => VStrings [until_nul (s ++ [0])]) (k_sha1 p).
+Proof. intros p. sig_cases p. Qed.
+Lemma find_sig_sha256 : forall p,
+  option_map item_value (find_tag 273 (sig_items p)) = option_map (fun s => VStrings [until_nul (s ++ [0])]) (k_sha256 p).
+Proof. intros p. sig_cases p. Qed.
+Lemma find_sig_dsa : forall p,
+  option_map item_value (find_tag 267 (sig_items p)) = option_map (fun s => VBytes (encode_sig s)) (k_dsa p).
+Proof. intros p. sig_cases p. Qed.
+Lemma find_sig_rsa : forall p,
+  option_map item_value (find_tag 268 (sig_items p)) = option_map (fun s => VBytes (encode_sig s)) (k_rsa p).
+Proof. intros p. sig_cases p. Qed.
+Lemma find_sig_gpg : forall p,
+  option_map item_value (find_tag 1005 (sig_items p)) = option_map (fun s => VBytes (encode_sig s)) (k_gpg p).
+Proof. intros p. sig_cases p. Qed.
+Lemma find_sig_pgp : forall p,
+  option_map item_value (find_tag 1002 (sig_items p)) = option_map (fun s => VBytes (encode_sig s)) (k_pgp p).
+Proof. intros p. sig_cases p. Qed.
+
+Lemma sig_md5 : forall p off, bytes_by_tag true 1004 (entries_view off (sig_items p)) = Ok (stored (k_md5 p)).
+Proof. intros. rewrite bytes_by_tag_view, find_sig_md5. destruct (k_md5 p); reflexivity. Qed.
+
+Lemma sig_sha1 : forall p off, pkg_facts p ->
+  string_by_tag true 269 (entries_view off (sig_items p)) = Ok (stored (k_sha1 p)).
+Proof.
+  intros p off F. rewrite string_by_tag_view, find_sig_sha1. destruct (k_sha1 p) eqn:E; [|reflexivity].
+  cbn. f_equal. apply until_nul_str. eapply pf_sha1; eauto.
+Qed.
+
+Lemma sig_sha256 : forall p off, pkg_facts p ->
+  string_by_tag true 273 (entries_view off (sig_items p)) = Ok (stored (k_sha256 p)).
+Proof.
+  intros p off F. rewrite string_by_tag_view, find_sig_sha256. destruct (k_sha256 p) eqn:E; [|reflexivity].
+  cbn. f_equal. apply until_nul_str. eapply pf_sha256; eauto.
+Qed.
+
+(* algorithm and hash as the property names them *)
+Lemma algo_name_now : forall a h,
+  (sig4_algo_ok a = true \/ sig3_algo_ok a = true) -> hash_known h = true ->
+  algo_name cfg_now a h = pk_name a ++ bs "/" ++ hash_label h.
+Proof.
+  intros a h Ha Hh. unfold algo_name, pk_name, hash_label, cfg_now. cbn [cfg_echash].
+  unfold hash_known in Hh. destruct (hash_name h) as [n|]; [|discriminate].
+  destruct (a =? 17) eqn:E17; [reflexivity|]. destruct (a =? 19) eqn:E19; [reflexivity|].
+  destruct (a =? 22) eqn:E22; [reflexivity|].
+  assert (H13 : ((a =? 1) || (a =? 3)) = true).
+  { unfold sig4_algo_ok, sig3_algo_ok in Ha. rewrite ?E17, ?E19, ?E22 in Ha.
+    destruct (a =? 1), (a =? 3); cbn in *; try reflexivity; destruct Ha; discriminate. }
+  rewrite H13. reflexivity.
+Qed.
+
+Lemma sig_ok_algo : forall s, sig_ok s = true ->
+  (sig4_algo_ok (sp_algo s) = true \/ sig3_algo_ok (sp_algo s) = true) /\ hash_known (sp_hash s) = true.
+Proof.
+  intros s H. unfold sig_ok in H.
+  apply andb_prop in H as [H _]. apply andb_prop in H as [H _]. apply andb_prop in H as [H _].
+  apply andb_prop in H as [H _]. apply andb_prop in H as [H _]. apply andb_prop in H as [Ha Hh].
+  split; [|exact Hh]. destruct (sp_v3 s); auto.
+Qed.
+
+Lemma sig_attrs_encode : forall other s, sig_ok s = true ->
+  sig_attrs cfg_now other (encode_sig s) = Ok (sig_report s).
+Proof.
+  intros other s H. unfold sig_attrs. rewrite packet_read_encode by exact H.
+  destruct (sig_ok_algo s H) as [Ha Hh].
+  unfold sig_view, sig_report. destruct (sp_v3 s); rewrite algo_name_now by assumption; reflexivity.
+Qed.
+
+Lemma sig_child_encode : forall other desc tag o,
+  (forall s, o = Some s -> sig_ok s = true) ->
+  forall idx, bytes_by_tag true tag idx = Ok (bytes_of (option_map (fun s => VBytes (encode_sig s)) o)) ->
+  sig_child cfg_now other desc idx tag = Ok (opt_list (fun s => Info desc (sig_report s) []) o).
+Proof.
+  intros other desc tag o Hok idx Hb. unfold sig_child, cfg_now. cbn [cfg_checked]. rewrite Hb. cbn [bind].
+  destruct o as [s|]; cbn [option_map bytes_of opt_list]; [|reflexivity].
+  destruct (encode_sig s) eqn:E; [exfalso; eapply encode_sig_nonempty; eauto|]. rewrite <- E.
+  fold cfg_now. rewrite sig_attrs_encode by (apply Hok; reflexivity). reflexivity.
+Qed.
+
+(* RPMFile on the canonical layout of a well-formed package reports exactly what is stored *)
+Lemma describe_encode : forall other p, pkg_ok p = true -> describe other (encode p) = Ok (report p).
+Proof.
+  intros other p Hok. pose proof (pkg_ok_facts p Hok) as F.
+  unfold describe, describe_gen. unfold cfg_now at 1 2 3 4 5 6 7 8 9 10 11.
+  cbn [cfg_validate cfg_checked cfg_noregion].
+  rewrite check_index_encode by exact Hok. cbn [bind].
+  rewrite parse_encode by exact Hok. cbn [bind]. cbv zeta.
+  cbn [view p_main p_sig header_view h_entries].
+  rewrite main_rpmversion, main_name, main_version, main_release, main_arch by exact F. cbn [bind].
+  rewrite Bool.orb_true_r. cbn [negb].
+  rewrite sig_md5, sig_sha1, sig_sha256 by exact F. cbn [bind].
+  rewrite (sig_child_encode other _ 267 (k_dsa p) (pf_dsa p F)) by (rewrite bytes_by_tag_view, find_sig_dsa; reflexivity).
+  rewrite (sig_child_encode other _ 268 (k_rsa p) (pf_rsa p F)) by (rewrite bytes_by_tag_view, find_sig_rsa; reflexivity).
+  rewrite (sig_child_encode other _ 1005 (k_gpg p) (pf_gpg p F)) by (rewrite bytes_by_tag_view, find_sig_gpg; reflexivity).
+  rewrite (sig_child_encode other _ 1002 (k_pgp p) (pf_pgp p F)) by (rewrite bytes_by_tag_view, find_sig_pgp; reflexivity).
+  cbn [bind]. unfold report. fold (report_children p). rewrite <- !app_assoc.
+  destruct (stored (k_rpmversion p)); reflexivity.
+Qed.
+
+(* ================================================================ C19_unsigned *)
+
+Definition unsigned_attr : bytes * bytes := (bs "Signature", bs "none").
+
+Lemma not_unsigned_opt_attr : forall name v, name <> bs "Signature" -> ~ In unsigned_attr (opt_attr name v).
+Proof.
+  intros name v Hn. unfold opt_attr. destruct v; [intros []|].
+  intros [E|[]]. unfold unsigned_attr in E. injection E as E1 E2. exact (Hn E1).
+Qed.
+
+(* for EVERY input: "Signature: none" is reported exactly when no signature entry is *)
+Lemma unsigned_iff_no_children : forall other data i,
+  describe other data = Ok i ->
+  (In unsigned_attr (i_attrs i) <-> i_children i = []).
+Proof.
+  intros other data i H. unfold describe, describe_gen, cfg_now in H.
+  cbn [cfg_validate cfg_checked cfg_noregion] in H.
+  destruct (check_index data) as [[]| |]; cbn [bind] in H; try discriminate.
+  destruct (read_package_file data) as [p| |]; cbn [bind] in H; try discriminate.
+  cbv zeta in H.
+  destruct (string_by_tag true 1064 _) as [rv| |]; cbn [bind] in H; try discriminate.
+  destruct (string_by_tag true 1000 _) as [s1| |]; cbn [bind] in H; try discriminate.
+  destruct (string_by_tag true 1001 _) as [s2| |]; cbn [bind] in H; try discriminate.
+  destruct (string_by_tag true 1002 _) as [s3| |]; cbn [bind] in H; try discriminate.
+  destruct (string_by_tag true 1022 _) as [s4| |]; cbn [bind] in H; try discriminate.
+  rewrite Bool.orb_true_r in H. cbn [negb] in H.
+  destruct (bytes_by_tag true 1004 _) as [md5| |]; cbn [bind] in H; try discriminate.
+  destruct (string_by_tag true 269 _) as [sha1| |]; cbn [bind] in H; try discriminate.
+  destruct (string_by_tag true 273 _) as [sha256| |]; cbn [bind] in H; try discriminate.
+  destruct (sig_child _ _ _ _ 267) as [c1| |]; cbn [bind] in H; try discriminate.
+  destruct (sig_child _ _ _ _ 268) as [c2| |]; cbn [bind] in H; try discriminate.
+  destruct (sig_child _ _ _ _ 1005) as [c3| |]; cbn [bind] in H; try discriminate.
+  destruct (sig_child _ _ _ _ 1002) as [c4| |]; cbn [bind] in H; try discriminate.
+  inversion H; subst i; clear H. cbn [i_attrs i_children].
+  set (children := c1 ++ c2 ++ c3 ++ c4).
+  split.
+  - intros Hin. destruct children as [|c cs]; [reflexivity|]. exfalso.
+    rewrite app_nil_r in Hin.
+    destruct Hin as [E|[E|[E|[E|Hin]]]]; try (cbv in E; discriminate E).
+    apply in_app_or in Hin as [Hin|Hin]; [eapply not_unsigned_opt_attr; [|exact Hin]; cbv; discriminate|].
+    apply in_app_or in Hin as [Hin|Hin]; (eapply not_unsigned_opt_attr; [|exact Hin]; cbv; discriminate).
+  - intros E. rewrite E. do 4 right. apply in_or_app. right. left. reflexivity.
+Qed.
+
+Lemma report_children_nil : forall p,
+  report_children p = [] <-> (k_dsa p = None /\ k_rsa p = None /\ k_gpg p = None /\ k_pgp p = None).
+Proof.
+  intros p. unfold report_children.
+  destruct (k_dsa p), (k_rsa p), (k_gpg p), (k_pgp p); cbn; split; intros H;
+    try discriminate; try (destruct H as (H1 & H2 & H3 & H4); discriminate); auto.
+Qed.
+
+(* well-formed packages: reported as unsigned iff the four signature tags are absent *)
+Lemma unsigned_wellformed : forall other p, pkg_ok p = true ->
+  exists i, describe other (encode p) = Ok i /\
+    (In unsigned_attr (i_attrs i) <-> (k_dsa p = None /\ k_rsa p = None /\ k_gpg p = None /\ k_pgp p = None)) /\
+    (i_children i = [] <-> (k_dsa p = None /\ k_rsa p = None /\ k_gpg p = None /\ k_pgp p = None)).
+Proof.
+  intros other p Hok. exists (report p). split; [apply describe_encode; exact Hok|].
+  pose proof (unsigned_iff_no_children other (encode p) (report p) (describe_encode other p Hok)) as Hu.
+  split.
+  - rewrite Hu. cbn [report i_children]. apply report_children_nil.
+  - cbn [report i_children]. apply report_children_nil.
+Qed.
+
+(* ================================================================ the fuel of the signature parser is never exhausted *)
+
+Definition nf {A} (r : result A) : Prop := r <> Err "fuel".
+
+Lemma nf_bind : forall A B (r : result A) (f : A -> result B),
+  nf r -> (forall a, r = Ok a -> nf (f a)) -> nf (bind r f).
+Proof.
+  intros A B [a|e|s] f Hr Hf; cbn [bind]; [now apply Hf| |discriminate].
+  intros E. apply Hr. inversion E. reflexivity.
+Qed.
+
+Ltac nf_leaf := first [ discriminate | (intros Efuel; inversion Efuel; fail) ].
+
+Ltac nf_step :=
+  match goal with
+  | |- nf (Ok _) => unfold nf; discriminate
+  | |- nf (Panic _) => unfold nf; discriminate
+  | |- nf (Err _) => unfold nf; discriminate
+  | |- nf (bind _ _) => apply nf_bind; [|intros]
+  | |- nf (let '(_, _) := ?p in _) => destruct p
+  | |- nf (if ?b then _ else _) => destruct b eqn:?
+  | |- nf (match ?x with _ => _ end) => destruct x eqn:?
+  end.
+
+Lemma nf_need : forall n l, nf (need n l).
+Proof. intros. unfold need. repeat nf_step. Qed.
+
+Lemma need_ok : forall n l a b, need n l = Ok (a, b) -> a = firstn n l /\ b = skipn n l.
+Proof. intros n l a b H. unfold need in H. destruct (Nat.ltb (length l) n); [discriminate|]. inversion H. auto. Qed.
+
+Lemma nf_read_mpi : forall l, nf (read_mpi l).
+Proof. intros. unfold read_mpi. repeat (first [apply nf_need | nf_step]). Qed.
+
+Lemma nf_read_mpis : forall k l, nf (read_mpis k l).
+Proof.
+  induction k; intros; cbn [read_mpis]; [unfold nf; discriminate|].
+  apply nf_bind; [apply nf_read_mpi|intros; apply IHk].
+Qed.
+
+Lemma nf_subpacket_length : forall sp, nf (subpacket_length sp).
+Proof. intros. unfold subpacket_length. repeat nf_step. Qed.
+
+Lemma subpacket_length_shorter : forall sp len body,
+  subpacket_length sp = Ok (len, body) -> (length body < length sp)%nat.
+Proof.
+  intros sp len body H. unfold subpacket_length in H.
+  destruct sp as [|b0 r]; [discriminate|].
+  destruct (b0 <? 192); [inversion H; subst; cbn; lia|].
+  destruct (b0 <? 255).
+  - destruct r as [|b1 r']; [discriminate|]. inversion H; subst. cbn. lia.
+  - destruct r as [|b1 [|b2 [|b3 [|b4 r']]]]; try discriminate. inversion H; subst. cbn. lia.
+Qed.
+
+Lemma sig4_fuel : forall fuel,
+  (forall c, (length c <= fuel)%nat -> nf (parse_sig4 fuel c)) /\
+  (forall st sp h, (length sp <= fuel)%nat -> nf (parse_subpackets fuel st sp h)).
+Proof.
+  induction fuel as [|f [IH4 IHs]].
+  - split.
+    + intros c Hc. destruct c; [|cbn in Hc; lia]. cbn. unfold nf. discriminate.
+    + intros st sp h Hc. destruct sp; [|cbn in Hc; lia]. cbn. unfold nf. discriminate.
+  - split.
+    + intros c Hc.
+      destruct c as [|v [|t [|a [|h [|l1 [|l2 rest]]]]]];
+        try (cbn [parse_sig4]; repeat nf_step; fail).
+      rewrite parse_sig4_S. cbn [length] in Hc.
+      destruct (negb (v =? 4)); [unfold nf; discriminate|].
+      destruct (negb (sig4_algo_ok a)); [unfold nf; discriminate|].
+      destruct (negb (hash_known h)); [unfold nf; discriminate|].
+      apply nf_bind; [apply nf_need|]. intros [hashed r1] Hn1. apply need_ok in Hn1 as [Hh Hr1].
+      assert (Lh : (length hashed <= f)%nat) by (subst hashed; rewrite firstn_length; lia).
+      assert (Lr1 : (length r1 <= f)%nat) by (subst r1; rewrite skipn_length; lia).
+      apply nf_bind; [apply IHs; exact Lh|]. intros st1 _.
+      destruct (negb (ss_created st1)); [unfold nf; discriminate|].
+      apply nf_bind; [apply nf_need|]. intros [ul r2] Hn2. apply need_ok in Hn2 as [_ Hr2].
+      assert (Lr2 : (length r2 <= f)%nat) by (subst r2; rewrite skipn_length; lia).
+      apply nf_bind; [apply nf_need|]. intros [unhashed r3] Hn3. apply need_ok in Hn3 as [Hu _].
+      assert (Lu : (length unhashed <= f)%nat) by (subst unhashed; rewrite firstn_length; lia).
+      apply nf_bind; [apply IHs; exact Lu|]. intros st2 _.
+      apply nf_bind; [apply nf_need|]. intros [x r4] _.
+      destruct (sig_mpis a); [|unfold nf; discriminate].
+      apply nf_bind; [apply nf_read_mpis|]. intros. unfold nf. discriminate.
+    + intros st sp h Hc. destruct sp as [|x sp']; [cbn; unfold nf; discriminate|].
+      cbn [parse_subpackets].
+      apply nf_bind; [apply nf_subpacket_length|]. intros [len body] Hsl.
+      apply subpacket_length_shorter in Hsl. cbn [length] in Hsl, Hc.
+      destruct (lenN body <? len); [unfold nf; discriminate|].
+      assert (Lrest : (length (skipn (N.to_nat len) body) <= f)%nat) by (rewrite skipn_length; lia).
+      destruct (firstn (N.to_nat len) body) as [|t0 payload] eqn:Ef; [unfold nf; discriminate|].
+      assert (Lpay : (length payload <= f)%nat).
+      { apply (f_equal (@length N)) in Ef. rewrite firstn_length in Ef. cbn [length] in Ef. lia. }
+      repeat (first [apply IHs; exact Lrest | apply IH4; exact Lpay | nf_step]).
+Qed.
+
+Lemma parse_sig4_fuel : forall c, parse_sig4 (length c) c <> Err "fuel".
+Proof. intros. apply (proj1 (sig4_fuel (length c))). lia. Qed.
+
+(* ================================================================ witnesses: non-vacuity and the pre-repair code *)
+
+Definition ex_sig : sigpkt :=
+  mksigpkt false 1 8 81985529216486895 (* 0x0123456789ABCDEF *) 1700000000 0 [18; 52] [[1; 2; 3]].
+Definition ex_sig3 : sigpkt := mksigpkt true 17 2 207 1 0 [0; 0] [[1]; [2]].
+
+Definition ex_pkg : pkg :=
+  mkpkg 3 0 (bs "dummy") (bs "0.0.1") (bs "1") (bs "noarch") (Some (bs "4.14.3"))
+        (Some [1; 2; 3; 4; 5; 6; 7; 8; 9; 10; 11; 12; 13; 14; 15; 16])
+        (Some (bs "0123456789abcdef0123456789abcdef01234567")) None
+        None (Some ex_sig) (Some ex_sig3) None [0; 0; 0; 0; 0; 0; 0; 0].
+
+Fixpoint lookup_attr_p (name : bytes) (attrs : list (bytes * bytes)) : option bytes :=
+  match attrs with
+  | [] => None
+  | (n, v) :: r => if bytes_eqb n name then Some v else lookup_attr_p name r
+  end.
+
+Definition no_other : bytes -> result unit := fun _ => Err "not a signature packet".
+
+Lemma ex_pkg_ok : pkg_ok ex_pkg = true.
+Proof. vm_compute. reflexivity. Qed.
+
+Lemma ex_pkg_report :
+  describe no_other (encode ex_pkg) =
+  Ok (Info (bs "RPM (version 4.14.3)")
+        [(bs "Name", bs "dummy"); (bs "Version", bs "0.0.1"); (bs "Release", bs "1"); (bs "Architecture", bs "noarch");
+         (bs "MD5", bs "0102030405060708090a0b0c0d0e0f10");
+         (bs "SHA-1", bs "0123456789abcdef0123456789abcdef01234567")]
+        [Info (bs "Signature") [(bs "Algorithm", bs "RSA/SHA-256"); (bs "Key id", bs "0123456789ABCDEF")] [];
+         Info (bs "Legacy signature (RPM v3)") [(bs "Algorithm", bs "DSA/SHA-1"); (bs "Key id", bs "00000000000000CF")] []]).
+Proof. vm_compute. reflexivity. Qed.
+
+(* a package like ex_pkg whose main header is replaced *)
+Definition with_main (p : pkg) (its : list item) : bytes :=
+  encode_lead p ++ encode_header (sig_items p)
+  ++ repeat 0 (N.to_nat (pad_len (lenN (enc_store (sig_items p)))))
+  ++ encode_header its ++ k_payload p.
+
+(* F24: NAME carries type INT32 *)
+Definition w_f24 : bytes :=
+  with_main ex_pkg (with_region 63 [mkitem 1000 4 1 [0; 0; 0; 7]; str_item 1001 (bs "0.0.1"); str_item 1002 (bs "1"); str_item 1022 (bs "noarch")]).
+(* F24: NAME is a string entry with count 0 *)
+Definition w_f24b : bytes :=
+  with_main ex_pkg (with_region 63 [mkitem 1000 6 0 (bs "dummy" ++ [0]); str_item 1001 (bs "0.0.1"); str_item 1002 (bs "1"); str_item 1022 (bs "noarch")]).
+(* F36: a string array of count 2 whose first string runs to the end of the store *)
+Definition w_f36 : bytes :=
+  with_main ex_pkg (with_region 63 [str_item 1000 (bs "dummy"); str_item 1001 (bs "0.0.1"); str_item 1002 (bs "1"); str_item 1022 (bs "noarch");
+                                    mkitem 1117 8 2 [97; 98]]).
+(* F37: the signature header without its region entry *)
+Definition w_f37 : bytes :=
+  let its := tl (sig_items ex_pkg) in
+  encode_lead ex_pkg ++ encode_header its ++ repeat 0 (N.to_nat (pad_len (lenN (enc_store its))))
+  ++ encode_header (main_items ex_pkg) ++ k_payload ex_pkg.
+
+Lemma f24_refuted : is_panic (describe_gen cfg_original no_other w_f24) = true
+                 /\ is_panic (describe_gen cfg_original no_other w_f24b) = true.
+Proof. split; vm_compute; reflexivity. Qed.
+
+Lemma f24_now : exists i j, describe no_other w_f24 = Ok i /\ describe no_other w_f24b = Ok j
+  /\ lookup_attr_p (bs "Name") (i_attrs i) = Some [] /\ lookup_attr_p (bs "Version") (i_attrs i) = Some (bs "0.0.1").
+Proof. vm_compute. eexists. eexists. repeat split. Qed.
+
+Lemma f36_refuted : is_panic (describe_gen (mkcfg true true true false true) no_other w_f36) = true.
+Proof. vm_compute. reflexivity. Qed.
+
+Lemma f36_now : exists e, describe no_other w_f36 = Err e.
+Proof. vm_compute. eexists. reflexivity. Qed.
+
+Lemma f32_refuted : algo_name cfg_original 19 8 = bs "ECDSA" /\ algo_name cfg_original 22 10 = bs "EdDSA"
+                 /\ algo_name cfg_now 19 8 = bs "ECDSA/SHA-256" /\ algo_name cfg_now 22 10 = bs "EdDSA/SHA-512".
+Proof. vm_compute. repeat split. Qed.
+
+Lemma f37_refuted : exists i, describe_gen (mkcfg true true true true false) no_other w_f37 = Ok i
+  /\ i_children i = [] /\ ~ In unsigned_attr (i_attrs i).
+Proof.
+  vm_compute. eexists. split; [reflexivity|]. split; [reflexivity|].
+  intros [E|[E|[E|[E|[]]]]]; discriminate E.
+Qed.
+
+Lemma f37_now : exists i, describe no_other w_f37 = Ok i /\ length (i_children i) = 2%nat.
+Proof. vm_compute. eexists. split; reflexivity. Qed.
+
+(* the fuel of the partial-body-length reader is never exhausted either: with at least
+   [length r] units the result does not depend on the fuel *)
+Lemma partial_body_fuel : forall f1 f2 chunk r,
+  (length r <= f1)%nat -> (length r <= f2)%nat ->
+  partial_body f1 chunk r = partial_body f2 chunk r.
+Proof.
+  induction f1 as [|f1 IH]; intros f2 chunk r H1 H2.
+  - destruct r; [|cbn in H1; lia]. destruct f2, chunk; reflexivity.
+  - destruct f2 as [|f2].
+    + destruct r; [destruct chunk; reflexivity|cbn in H2; lia].
+    + cbn [partial_body]. destruct (lenN r <=? chunk) eqn:E; [reflexivity|].
+      destruct (skipn (N.to_nat chunk) r) as [|c r'] eqn:Es; [reflexivity|].
+      assert (Hl : (length r' < length r)%nat).
+      { apply (f_equal (@length N)) in Es. rewrite skipn_length in Es. cbn [length] in Es. lia. }
+      destruct (c <? 192); [reflexivity|]. destruct (c <? 224); [reflexivity|].
+      destruct (c <? 255); [|reflexivity].
+      f_equal. apply IH; lia.
+Qed.
